@@ -1,1 +1,2101 @@
-(* Per/Proofs.v -- stub, to be filled *)
+(* C10 proofs: the model of the PER primitives (Per/Prim.v) against the clause-by-clause
+   X.691 reference (Per/X691.v): writers produce the reference bit pattern, readers invert
+   it consuming exactly those bits, inadmissible arguments are errors; both cargo profiles. *)
+From A1 Require Import Per.Prim Per.X691.
+Require Import ZifyBool ZifyNat ZifyN.
+Local Open Scope N_scope.
+
+
+Definition bl (w : bits) : N := N.of_nat (length w).
+
+Lemma bov_length k x : length (bits_of_val k x) = k.
+Proof. induction k as [|k IH]; cbn [bits_of_val length]; congruence. Qed.
+
+Lemma bov_app a k x :
+  bits_of_val (a + k) x = bits_of_val a (x / 2 ^ N.of_nat k) ++ bits_of_val k x.
+Proof.
+  induction a as [|a IH]; [reflexivity|].
+  cbn [plus bits_of_val app]. rewrite IH. f_equal.
+  rewrite N.div_pow2_bits. f_equal. lia.
+Qed.
+
+Lemma bov_skipn a k x : skipn a (bits_of_val (a + k) x) = bits_of_val k x.
+Proof.
+  rewrite bov_app. rewrite skipn_app, bov_length, Nat.sub_diag, skipn_all2 by (rewrite bov_length; lia).
+  reflexivity.
+Qed.
+
+Lemma bov_mod k x : bits_of_val k (x mod 2 ^ N.of_nat k) = bits_of_val k x.
+Proof.
+  assert (G : forall j, (j <= k)%nat -> bits_of_val j (x mod 2 ^ N.of_nat k) = bits_of_val j x).
+  { induction j as [|j IH]; intros Hj; [reflexivity|].
+    cbn [bits_of_val]. rewrite IH by lia. f_equal.
+    apply N.mod_pow2_bits_low. lia. }
+  apply G. lia.
+Qed.
+
+Lemma vob_acc l a :
+  fold_left (fun a b => 2 * a + b2n b) l a = a * 2 ^ bl l + val_of_bits l.
+Proof.
+  unfold val_of_bits, bl. revert a. induction l as [|b l IH]; intros a.
+  - cbn. lia.
+  - cbn [fold_left length]. rewrite IH, (IH (2 * 0 + b2n b)).
+    replace (N.of_nat (S (length l))) with (N.succ (N.of_nat (length l))) by lia.
+    rewrite N.pow_succ_r'. lia.
+Qed.
+
+Lemma vob_cons b l : val_of_bits (b :: l) = b2n b * 2 ^ bl l + val_of_bits l.
+Proof. unfold val_of_bits at 1. cbn [fold_left]. rewrite vob_acc. lia. Qed.
+
+Lemma vob_app l1 l2 : val_of_bits (l1 ++ l2) = val_of_bits l1 * 2 ^ bl l2 + val_of_bits l2.
+Proof. unfold val_of_bits at 1. rewrite fold_left_app. fold (val_of_bits l1). apply vob_acc. Qed.
+
+Lemma vob_lt l : val_of_bits l < 2 ^ bl l.
+Proof.
+  induction l as [|b l IH]; [cbn; lia|].
+  rewrite vob_cons. unfold bl in *. cbn [length].
+  replace (N.of_nat (S (length l))) with (N.succ (N.of_nat (length l))) by lia.
+  rewrite N.pow_succ_r'. destruct b; cbn [b2n]; lia.
+Qed.
+
+Lemma vob_bov k x : val_of_bits (bits_of_val k x) = x mod 2 ^ N.of_nat k.
+Proof.
+  induction k as [|k IH].
+  - cbn. rewrite N.mod_1_r. reflexivity.
+  - cbn [bits_of_val]. rewrite vob_cons, IH. unfold bl. rewrite bov_length.
+    replace (N.of_nat (S k)) with (N.succ (N.of_nat k)) by lia.
+    rewrite N.pow_succ_r'.
+    assert (2 ^ N.of_nat k <> 0) as Hp by (apply N.pow_nonzero; lia).
+    rewrite (N.mul_comm 2). rewrite N.mod_mul_r by lia.
+    change (b2n (N.testbit x (N.of_nat k))) with (N.b2n (N.testbit x (N.of_nat k))).
+    rewrite N.testbit_spec'. lia.
+Qed.
+
+Lemma vob_bov_small k x : x < 2 ^ N.of_nat k -> val_of_bits (bits_of_val k x) = x.
+Proof. intros H. rewrite vob_bov. apply N.mod_small, H. Qed.
+
+Lemma bov_vob l : bits_of_val (length l) (val_of_bits l) = l.
+Proof.
+  induction l as [|b l IH]; [reflexivity|].
+  cbn [length bits_of_val]. rewrite vob_cons. f_equal.
+  - unfold bl. pose proof (vob_lt l) as Hl. unfold bl in Hl.
+    set (p := 2 ^ N.of_nat (length l)) in *.
+    apply eq_true_iff_eq. rewrite N.testbit_true.
+    assert (p <> 0) by (apply N.pow_nonzero; lia).
+    rewrite N.div_add_l by lia. rewrite (N.div_small (val_of_bits l)) by lia.
+    destruct b; cbn; split; intros; try reflexivity; try discriminate.
+  - rewrite <- (bov_mod (length l)). unfold bl.
+    rewrite N.add_comm, N.mod_add by (apply N.pow_nonzero; lia).
+    rewrite bov_mod. exact IH.
+Qed.
+
+(* the top bit of a (k+1)-bit value *)
+Lemma testbit_top y k : y < 2 ^ N.succ k -> N.testbit y k = (2 ^ k <=? y).
+Proof.
+  intros H. rewrite N.pow_succ_r' in H.
+  assert (2 ^ k <> 0) as Hp by (apply N.pow_nonzero; lia).
+  apply eq_true_iff_eq. rewrite N.testbit_true, N.leb_le.
+  assert (y / 2 ^ k < 2) by (apply N.div_lt_upper_bound; lia).
+  rewrite N.mod_small by lia.
+  split; intros E.
+  - assert (1 <= y / 2 ^ k) as L by lia. 
+    pose proof (N.mul_div_le y (2 ^ k) Hp). nia.
+  - assert (1 <= y / 2 ^ k); [|lia]. apply N.div_le_lower_bound; lia.
+Qed.
+
+
+Lemma size_le64 r : r < two64 -> N.size r <= 64.
+Proof. intros H. apply size_le_of_lt. exact H. Qed.
+
+Lemma skip_lz64 r x : r < two64 ->
+  skipn (N.to_nat (lz64 r)) (bits64 x) = field (nbits r) x.
+Proof.
+  intros Hr. pose proof (size_le64 r Hr) as Hs.
+  unfold bits64, field, nbits, lz64.
+  replace 64%nat with (N.to_nat (64 - N.size r) + N.to_nat (N.size r))%nat by lia.
+  apply bov_skipn.
+Qed.
+
+Lemma skip_bits64 k x : (k <= 64)%nat -> skipn (64 - k) (bits64 x) = bits_of_val k x.
+Proof.
+  intros Hk. unfold bits64. replace 64%nat with ((64 - k) + k)%nat at 2 by lia.
+  apply bov_skipn.
+Qed.
+
+Lemma field_length k x : bl (field k x) = k.
+Proof. unfold bl, field. rewrite bov_length. lia. Qed.
+
+Lemma usub_ok m a b : b <= a -> usub m a b = Ok (a - b).
+Proof. intros H. unfold usub. destruct (N.leb_spec b a); [reflexivity|lia]. Qed.
+Lemma uadd_ok m a b : a + b < two64 -> uadd m a b = Ok (a + b).
+Proof. intros H. unfold uadd. destruct (N.ltb_spec (a + b) two64); [reflexivity|lia]. Qed.
+
+(** ** non-negative-binary-integer *)
+Definition nn_bounded (lb ub : option N) : Prop := lb <> None \/ ub <> None.
+
+Lemma w_nnbi_bounded m lb ub v :
+  nn_bounded lb ub -> opt_or ub I64_MAX < two64 ->
+  opt_or lb 0 <= v <= opt_or ub I64_MAX ->
+  w_nnbi m lb ub v = Ok (field (nbits (opt_or ub I64_MAX - opt_or lb 0)) (v - opt_or lb 0)).
+Proof.
+  intros Hb Hu Hv.
+  assert (E : w_nnbi m lb ub v =
+    (let lower := opt_or lb 0 in let upper := opt_or ub I64_MAX in
+      if (v <? lower) || (upper <? v) then Err E_VALUE_RANGE else
+      let! range := usub m upper lower in
+      let offset_bits := lz64 range in
+      let! x := usub m v lower in
+      Ok (skipn (N.to_nat offset_bits) (bits64 x)))).
+  { destruct lb, ub; try reflexivity. destruct Hb; congruence. }
+  rewrite E. cbv zeta.
+  set (lower := opt_or lb 0) in *. set (upper := opt_or ub I64_MAX) in *.
+  destruct (N.ltb_spec v lower); [lia|]. destruct (N.ltb_spec upper v); [lia|].
+  cbn [orb]. rewrite !usub_ok by lia. cbn [bind].
+  rewrite skip_lz64 by lia. reflexivity.
+Qed.
+
+Lemma w_nnbi_reject m lb ub v :
+  nn_bounded lb ub -> v < opt_or lb 0 \/ opt_or ub I64_MAX < v ->
+  w_nnbi m lb ub v = Err E_VALUE_RANGE.
+Proof.
+  intros Hb Hv.
+  destruct lb as [l|], ub as [u|]; try (destruct Hb; congruence); cbn [w_nnbi opt_or] in *;
+  match goal with |- context [(?a <? ?b) || (?c <? ?d)] =>
+    destruct (N.ltb_spec a b); destruct (N.ltb_spec c d); cbn [orb]; try reflexivity; lia end.
+Qed.
+
+Lemma noctets_alt v : v < two64 -> 8 - N.min (lz64 v / 8) 7 = noctets v.
+Proof.
+  intros Hv. pose proof (size_le64 v Hv). unfold noctets, nbits, lz64. lia.
+Qed.
+
+Lemma noctets_range v : v < two64 -> 1 <= noctets v <= 8 /\ v < 2 ^ (8 * noctets v).
+Proof.
+  intros Hv. pose proof (size_le64 v Hv) as Hs. unfold noctets, nbits. split; [lia|].
+  eapply N.lt_le_trans; [apply size_bound|]. apply N.pow_le_mono_r; lia.
+Qed.
+
+Lemma x_len_short_small n : n <= 127 -> x_len_short n = false :: field 7 n.
+Proof. intros H. unfold x_len_short. destruct (N.leb_spec n 127); [reflexivity|lia]. Qed.
+
+Lemma w_nnbi_unbounded m v : v < two64 ->
+  w_nnbi m None None v = Ok (x_len_short (noctets v) ++ field (8 * noctets v) v).
+Proof.
+  intros Hv. cbn [w_nnbi]. destruct (noctets_range v Hv) as [Hr _].
+  rewrite noctets_alt by exact Hv.
+  rewrite x_len_short_small by lia.
+  assert (E1 : skipn 57 (bits64 (noctets v)) = field 7 (noctets v)) by (apply (skip_bits64 7); lia).
+  assert (E2 : skipn (N.to_nat (8 * N.min (lz64 v / 8) 7)) (bits64 v) = field (8 * noctets v) v).
+  { rewrite <- (noctets_alt v Hv).
+    set (o := N.min (lz64 v / 8) 7).
+    replace (N.to_nat (8 * o)) with (64 - N.to_nat (8 * (8 - o)))%nat by lia.
+    apply skip_bits64. lia. }
+  rewrite E1, E2. reflexivity.
+Qed.
+
+
+(** ** bit sources *)
+(* [s] is positioned at the start of [w ++ tail], and [w] lies within both the declared
+   length and the underlying slice *)
+Definition at_src (s : src) (w tail : bits) : Prop :=
+  s_rest s = w ++ tail /\ s_pos s + bl w <= s_len s /\ s_pos s + bl w <= s_total s.
+
+Lemma bl_app a b : bl (a ++ b) = bl a + bl b.
+Proof. unfold bl. rewrite app_length. lia. Qed.
+Lemma bl_cons a b : bl (a :: b) = 1 + bl b.
+Proof. unfold bl. cbn [length]. lia. Qed.
+Lemma bl_nil : bl [] = 0. Proof. reflexivity. Qed.
+
+Lemma src_adv_adv s a b r1 r2 : src_adv (src_adv s a r1) b r2 = src_adv s (a + b) r2.
+Proof. unfold src_adv. cbn. f_equal. lia. Qed.
+Lemma src_adv_0 s : src_adv s 0 (s_rest s) = s.
+Proof. destruct s. unfold src_adv. cbn. f_equal. lia. Qed.
+
+Lemma at_src_split s w1 w2 tail :
+  at_src s (w1 ++ w2) tail ->
+  at_src s w1 (w2 ++ tail) /\ at_src (src_adv s (bl w1) (w2 ++ tail)) w2 tail.
+Proof.
+  unfold at_src. rewrite bl_app, <- app_assoc. intros (E & L & T). unfold src_adv; cbn [s_pos s_len s_total s_rest]. repeat split; try assumption; try reflexivity; lia.
+Qed.
+
+Lemma r_bits_into_ok s w tail dst doff n :
+  at_src s w tail -> n = bl w -> doff + n <= dst ->
+  r_bits_into s dst doff n = Ok (w, src_adv s n tail).
+Proof.
+  intros (E & L & T) -> Hd. unfold r_bits_into.
+  destruct (N.ltb_spec (s_len s - s_pos s) (bl w)); [lia|].
+  destruct (N.ltb_spec dst (doff + bl w)); [lia|].
+  destruct (N.ltb_spec (s_total s - s_pos s) (bl w)); [lia|].
+  rewrite E. unfold bl. rewrite Nat2N.id.
+  rewrite firstn_app, skipn_app, Nat.sub_diag, firstn_all, skipn_all. cbn [firstn skipn app].
+  rewrite app_nil_r. reflexivity.
+Qed.
+
+Lemma r_bits_ok s w tail n :
+  at_src s w tail -> n = bl w -> r_bits s n = Ok (w, src_adv s n tail).
+Proof. intros H E. unfold r_bits. apply r_bits_into_ok; auto. lia. Qed.
+
+Lemma r_bit_ok s b tail : at_src s [b] tail -> r_bit s = Ok (b, src_adv s 1 tail).
+Proof.
+  intros (E & L & T). unfold r_bit. change (bl [b]) with 1 in *.
+  destruct (N.ltb_spec (s_pos s) (s_len s)); [|lia]. rewrite E. reflexivity.
+Qed.
+
+Lemma at_src_cons s b w tail :
+  at_src s (b :: w) tail -> at_src s [b] (w ++ tail) /\ at_src (src_adv s 1 (w ++ tail)) w tail.
+Proof. intros H. apply (at_src_split s [b] w tail) in H. exact H. Qed.
+
+(** ** readers: non-negative-binary-integer *)
+Lemma r_nnbi_bounded m lb ub v s tail :
+  nn_bounded lb ub -> opt_or ub I64_MAX < two64 ->
+  opt_or lb 0 <= v <= opt_or ub I64_MAX ->
+  let w := field (nbits (opt_or ub I64_MAX - opt_or lb 0)) (v - opt_or lb 0) in
+  at_src s w tail ->
+  r_nnbi m lb ub s = Ok (v, src_adv s (bl w) tail).
+Proof.
+  intros Hb Hu Hv w Hs.
+  assert (E : r_nnbi m lb ub s =
+    (let lower := opt_or lb 0 in let upper := opt_or ub I64_MAX in
+      let range := upper - lower in
+      let offset_bits := lz64 range in
+      let! (bs, s) := r_bits_into s 64 offset_bits (64 - offset_bits) in
+      let! v := uadd m lower (val_of_bits bs) in
+      Ok (v, s))).
+  { destruct lb, ub; try reflexivity. destruct Hb; congruence. }
+  rewrite E. cbv zeta. clear E.
+  set (lower := opt_or lb 0) in *. set (upper := opt_or ub I64_MAX) in *.
+  assert (Hr : upper - lower < two64) by lia.
+  pose proof (size_le64 _ Hr) as Hsz.
+  assert (Hw : bl w = 64 - lz64 (upper - lower)).
+  { unfold w. rewrite field_length. unfold nbits, lz64. lia. }
+  rewrite (r_bits_into_ok s w tail) by (auto; unfold lz64; lia).
+  cbn [bind]. unfold w at 1. unfold field. rewrite vob_bov_small.
+  - rewrite uadd_ok by lia. cbn [bind]. rewrite <- Hw. do 2 f_equal. lia.
+  - rewrite N2Nat.id. unfold nbits. eapply N.le_lt_trans; [|apply size_bound]. lia.
+Qed.
+
+Lemma r_len_unc_short s n tail : n <= 127 ->
+  at_src s (false :: field 7 n) tail ->
+  r_length_determinant_unc s = Ok (n, src_adv s 8 tail).
+Proof.
+  intros Hn Hs. unfold r_length_determinant_unc.
+  apply at_src_cons in Hs. destruct Hs as [H1 H2].
+  rewrite (r_bit_ok _ _ _ H1). cbn [bind negb].
+  rewrite (r_bits_into_ok _ _ _ 64 57 7 H2) by (try rewrite field_length; lia).
+  cbn [bind]. rewrite src_adv_adv. unfold field. rewrite vob_bov_small by (cbn; lia). reflexivity.
+Qed.
+
+Lemma r_nnbi_unbounded m v s tail : v < two64 ->
+  let w := x_len_short (noctets v) ++ field (8 * noctets v) v in
+  at_src s w tail ->
+  r_nnbi m None None s = Ok (v, src_adv s (bl w) tail).
+Proof.
+  intros Hv w Hs. destruct (noctets_range v Hv) as [Hr Hlt].
+  unfold w in *. rewrite x_len_short_small in * by lia.
+  cbn [r_nnbi]. apply at_src_split in Hs. destruct Hs as [H1 H2].
+  assert (Hle : noctets v <= 127) by lia.
+  rewrite (r_len_unc_short _ _ _ Hle H1). cbn [bind].
+  destruct (N.leb_spec (noctets v) 8); [|lia].
+  assert (B : bl (false :: field 7 (noctets v)) = 8) by (rewrite bl_cons, field_length; lia).
+  rewrite B in H2.
+  rewrite (r_bits_ok _ _ _ _ H2) by (rewrite field_length; reflexivity).
+  cbn [bind]. rewrite src_adv_adv. unfold field at 1. rewrite vob_bov_small by (rewrite N2Nat.id; exact Hlt).
+  rewrite bl_app, B, field_length. reflexivity.
+Qed.
+
+
+(** ** i64 / u64 conversions *)
+Lemma Ztwo64 : Z.of_N two64 = 18446744073709551616%Z. Proof. reflexivity. Qed.
+Lemma Ztwo63 : Z.of_N two63 = 9223372036854775808%Z. Proof. reflexivity. Qed.
+
+Lemma u64_of_i64_nonneg z : (0 <= z < Z.of_N two64)%Z -> u64_of_i64 z = Z.to_N z.
+Proof. intros H. unfold u64_of_i64. rewrite Z.mod_small by lia. reflexivity. Qed.
+
+Lemma u64_of_i64_neg z : (- Z.of_N two64 <= z < 0)%Z -> u64_of_i64 z = Z.to_N (z + Z.of_N two64).
+Proof.
+  intros H. unfold u64_of_i64. f_equal. symmetry.
+  apply Z.mod_unique with (q := (-1)%Z); lia.
+Qed.
+
+Lemma u64_of_i64_shift z k : u64_of_i64 (z + k * Z.of_N two64) = u64_of_i64 z.
+Proof. unfold u64_of_i64. rewrite Z.mod_add by (rewrite Ztwo64; lia). reflexivity. Qed.
+
+Lemma iwrap_shift z z' k : is_i64 z' -> z = (z' + k * Z.of_N two64)%Z -> iwrap z = z'.
+Proof.
+  intros Hz ->. unfold iwrap. rewrite u64_of_i64_shift. apply u64_i64_roundtrip, Hz.
+Qed.
+
+Lemma i64_of_u64_cases n : n < two64 ->
+  i64_of_u64 n = Z.of_N n \/ i64_of_u64 n = (Z.of_N n - Z.of_N two64)%Z.
+Proof. intros _. unfold i64_of_u64. destruct (n <? two63); auto. Qed.
+
+(** ** constrained whole number *)
+Lemma constrained_range lb ub : is_i64 lb -> is_i64 ub -> (lb <= ub)%Z ->
+  u64_of_i64 (ub - lb) = Z.to_N (ub - lb) /\ Z.to_N (ub - lb) < two64.
+Proof.
+  unfold is_i64. rewrite Ztwo63. intros Hl Hu Hle.
+  rewrite u64_of_i64_nonneg by (rewrite Ztwo64; lia). split; [reflexivity|]. unfold two64. lia.
+Qed.
+
+Lemma constrained_write m lb ub v :
+  is_i64 lb -> is_i64 ub -> (lb <= v <= ub)%Z ->
+  exists bs, w_constrained m lb ub v = Ok bs /\ x_constrained lb ub v = Some bs.
+Proof.
+  intros Hl Hu Hv.
+  assert (Hvi : is_i64 v) by (unfold is_i64 in *; lia).
+  destruct (constrained_range lb ub Hl Hu ltac:(lia)) as [Er Hr].
+  destruct (constrained_range lb v Hl Hvi ltac:(lia)) as [Ev Hvr].
+  unfold w_constrained, x_constrained.
+  destruct (Z.ltb_spec v lb); [lia|]. destruct (Z.ltb_spec ub v); [lia|]. cbn [orb].
+  destruct (Z.leb_spec lb v); [|lia]. destruct (Z.leb_spec v ub); [|lia]. cbn [andb].
+  rewrite Er, Ev. set (range := Z.to_N (ub - lb)) in *. set (x := Z.to_N (v - lb)) in *.
+  destruct (N.ltb_spec 0 range) as [Hp|Hz].
+  - rewrite w_nnbi_bounded; cbn [opt_or]; [|right; discriminate|lia|lia].
+    rewrite !N.sub_0_r. eauto.
+  - assert (range = 0) as -> by lia. exists []. split; reflexivity.
+Qed.
+
+Lemma constrained_reject m lb ub v :
+  (v < lb \/ ub < v)%Z -> w_constrained m lb ub v = Err E_VALUE_RANGE.
+Proof.
+  intros H. unfold w_constrained.
+  destruct (Z.ltb_spec v lb); destruct (Z.ltb_spec ub v); cbn [orb]; try reflexivity; lia.
+Qed.
+
+Lemma constrained_reject_x lb ub v : (v < lb \/ ub < v)%Z -> x_constrained lb ub v = None.
+Proof.
+  intros H. unfold x_constrained.
+  destruct (Z.leb_spec lb v); destruct (Z.leb_spec v ub); cbn [andb]; try reflexivity; lia.
+Qed.
+
+Lemma constrained_read m lb ub v bs s tail :
+  is_i64 lb -> is_i64 ub -> (lb <= v <= ub)%Z ->
+  x_constrained lb ub v = Some bs -> at_src s bs tail ->
+  r_constrained m lb ub s = Ok (v, src_adv s (bl bs) tail).
+Proof.
+  intros Hl Hu Hv Hx Hs.
+  assert (Hvi : is_i64 v) by (unfold is_i64 in *; lia).
+  destruct (constrained_range lb ub Hl Hu ltac:(lia)) as [Er Hr].
+  destruct (constrained_range lb v Hl Hvi ltac:(lia)) as [Ev Hvr].
+  unfold x_constrained in Hx.
+  destruct (Z.leb_spec lb v); [|lia]. destruct (Z.leb_spec v ub); [|lia]. cbn [andb] in Hx.
+  injection Hx as <-.
+  unfold r_constrained. rewrite Er. set (range := Z.to_N (ub - lb)) in *. set (x := Z.to_N (v - lb)) in *.
+  destruct (N.ltb_spec 0 range) as [Hp|Hz].
+  - rewrite (r_nnbi_bounded m None (Some range) x s tail); cbn [opt_or]; rewrite ?N.sub_0_r;
+      [|right; discriminate|lia|lia|exact Hs].
+    cbn [bind]. do 2 f_equal.
+    unfold is_i64 in *. rewrite Ztwo63 in *.
+    destruct (i64_of_u64_cases x ltac:(lia)) as [E|E]; rewrite E.
+    + apply iwrap_shift with (k := 0%Z); [unfold is_i64; rewrite Ztwo63; lia|lia].
+    + apply iwrap_shift with (k := (-1)%Z); [unfold is_i64; rewrite Ztwo63; lia|lia].
+  - assert (range = 0) as E0 by lia.
+    assert (Hnil : field (nbits range) x = []) by (rewrite E0; reflexivity).
+    rewrite Hnil in *. rewrite bl_nil.
+    assert (v = lb) as -> by lia.
+    destruct Hs as (E & _). cbn [app] in E. rewrite <- E, src_adv_0. reflexivity.
+Qed.
+
+(** ** normally small *)
+Lemma normally_small_write m v : v < two64 -> w_normally_small m v = Ok (x_normally_small v).
+Proof.
+  intros Hv. unfold w_normally_small, x_normally_small, SMALL_NON_NEGATIVE_NUMBER.
+  destruct (N.leb_spec 64 v); destruct (N.leb_spec v 63); try lia.
+  - rewrite w_nnbi_unbounded by exact Hv. reflexivity.
+  - rewrite w_nnbi_bounded; cbn [opt_or]; [|right; discriminate|unfold two64; lia|lia].
+    cbn [bind]. rewrite !N.sub_0_r. reflexivity.
+Qed.
+
+Lemma normally_small_read m v s tail : v < two64 ->
+  at_src s (x_normally_small v) tail ->
+  r_normally_small m s = Ok (v, src_adv s (bl (x_normally_small v)) tail).
+Proof.
+  intros Hv. unfold r_normally_small, x_normally_small, SMALL_NON_NEGATIVE_NUMBER.
+  destruct (N.leb_spec v 63); intros Hs; apply at_src_cons in Hs; destruct Hs as [H1 H2];
+    rewrite (r_bit_ok _ _ _ H1); cbn [bind].
+  - rewrite (r_nnbi_bounded m None (Some 63) v _ tail); cbn [opt_or]; rewrite ?N.sub_0_r;
+      [|right; discriminate|unfold two64; lia|lia|exact H2].
+    rewrite src_adv_adv, bl_cons. reflexivity.
+  - rewrite (r_nnbi_unbounded m v _ tail Hv H2). rewrite src_adv_adv, bl_cons. reflexivity.
+Qed.
+
+(** ** semi-constrained *)
+Lemma semi_constrained_write m lb v : is_i64 lb -> is_i64 v -> (lb <= v)%Z ->
+  exists bs, w_semi_constrained m lb v = Ok bs /\ x_semi_constrained lb v = Some bs.
+Proof.
+  intros Hl Hv Hle. destruct (constrained_range lb v Hl Hv Hle) as [E Hr].
+  unfold w_semi_constrained, x_semi_constrained.
+  destruct (Z.ltb_spec v lb); [lia|]. destruct (Z.leb_spec lb v); [|lia].
+  rewrite E, w_nnbi_unbounded by exact Hr. eauto.
+Qed.
+
+Lemma semi_constrained_reject m lb v : (v < lb)%Z ->
+  w_semi_constrained m lb v = Err E_VALUE_RANGE /\ x_semi_constrained lb v = None.
+Proof.
+  intros H. unfold w_semi_constrained, x_semi_constrained.
+  destruct (Z.ltb_spec v lb); [|lia]. destruct (Z.leb_spec lb v); [lia|]. auto.
+Qed.
+
+Lemma semi_constrained_read m lb v bs s tail : is_i64 lb -> is_i64 v -> (lb <= v)%Z ->
+  x_semi_constrained lb v = Some bs -> at_src s bs tail ->
+  r_semi_constrained m lb s = Ok (v, src_adv s (bl bs) tail).
+Proof.
+  intros Hl Hv Hle Hx Hs. destruct (constrained_range lb v Hl Hv Hle) as [E Hr].
+  unfold x_semi_constrained in Hx. destruct (Z.leb_spec lb v); [|lia]. injection Hx as <-.
+  unfold r_semi_constrained. set (x := Z.to_N (v - lb)) in *.
+  rewrite (r_nnbi_unbounded m x s tail Hr Hs). cbn [bind]. do 2 f_equal.
+  unfold is_i64 in *. rewrite Ztwo63 in *.
+  destruct (i64_of_u64_cases x Hr) as [E1|E1]; rewrite E1.
+  - apply iwrap_shift with (k := 0%Z); [unfold is_i64; rewrite Ztwo63; lia|lia].
+  - apply iwrap_shift with (k := (-1)%Z); [unfold is_i64; rewrite Ztwo63; lia|lia].
+Qed.
+
+
+Lemma x_constrained_N l u v :
+  x_constrained (Z.of_N l) (Z.of_N u) (Z.of_N v) =
+  if (l <=? v) && (v <=? u) then Some (field (nbits (u - l)) (v - l)) else None.
+Proof.
+  unfold x_constrained.
+  destruct (Z.leb_spec (Z.of_N l) (Z.of_N v)); destruct (N.leb_spec l v); try lia; cbn [andb]; [|reflexivity].
+  destruct (Z.leb_spec (Z.of_N v) (Z.of_N u)); destruct (N.leb_spec v u); try lia; [|reflexivity].
+  do 3 f_equal; lia.
+Qed.
+
+Lemma nnbi_write m lb ub v :
+  nn_bounded lb ub -> opt_or ub I64_MAX < two64 ->
+  opt_or lb 0 <= v <= opt_or ub I64_MAX ->
+  exists bs, w_nnbi m lb ub v = Ok bs /\
+    x_constrained (Z.of_N (opt_or lb 0)) (Z.of_N (opt_or ub I64_MAX)) (Z.of_N v) = Some bs.
+Proof.
+  intros Hb Hu Hv. rewrite w_nnbi_bounded by assumption. rewrite x_constrained_N.
+  destruct (N.leb_spec (opt_or lb 0) v); [|lia]. destruct (N.leb_spec v (opt_or ub I64_MAX)); [|lia].
+  eauto.
+Qed.
+
+Lemma nnbi_read m lb ub v bs s tail :
+  nn_bounded lb ub -> opt_or ub I64_MAX < two64 ->
+  x_constrained (Z.of_N (opt_or lb 0)) (Z.of_N (opt_or ub I64_MAX)) (Z.of_N v) = Some bs ->
+  at_src s bs tail ->
+  r_nnbi m lb ub s = Ok (v, src_adv s (bl bs) tail).
+Proof.
+  intros Hb Hu Hx Hs. rewrite x_constrained_N in Hx.
+  destruct (N.leb_spec (opt_or lb 0) v); [|discriminate]. destruct (N.leb_spec v (opt_or ub I64_MAX)); [|discriminate].
+  injection Hx as <-. apply r_nnbi_bounded; auto.
+Qed.
+
+(** ** 2's complement *)
+Lemma Zpow_N k : (2 ^ Z.of_N k)%Z = Z.of_N (2 ^ k).
+Proof. rewrite N2Z.inj_pow. reflexivity. Qed.
+
+Lemma pow2_pos k : 0 < 2 ^ k.
+Proof. apply N.neq_0_lt_0, N.pow_nonzero. lia. Qed.
+
+Lemma pow2_succ k : 0 < k -> 2 ^ k = 2 * 2 ^ (k - 1).
+Proof. intros H. rewrite <- N.pow_succ_r'. f_equal. lia. Qed.
+
+(* the bit pattern of [v] in [k] bits *)
+Definition twos_bits (k : N) (v : Z) : bits := field k (Z.to_N (v mod 2 ^ Z.of_N k)).
+
+Definition fits (k : N) (v : Z) : Prop := (- 2 ^ (Z.of_N k - 1) <= v < 2 ^ (Z.of_N k - 1))%Z.
+
+Lemma fits_N k v : 0 < k -> fits k v <-> (- Z.of_N (2 ^ (k - 1)) <= v < Z.of_N (2 ^ (k - 1)))%Z.
+Proof.
+  intros Hk. unfold fits. replace (Z.of_N k - 1)%Z with (Z.of_N (k - 1)) by lia. rewrite Zpow_N. tauto.
+Qed.
+
+Lemma mod_pow_dvd x a b : a <= b -> (x mod 2 ^ b) mod 2 ^ a = x mod 2 ^ a.
+Proof.
+  intros H. replace b with (a + (b - a)) by lia. rewrite N.pow_add_r.
+  rewrite N.mod_mul_r by (apply N.pow_nonzero; lia).
+  rewrite (N.mul_comm (2 ^ a)), N.mod_add by (apply N.pow_nonzero; lia).
+  apply N.mod_mod. apply N.pow_nonzero. lia.
+Qed.
+
+Lemma u64_mod_pow v k : k <= 64 ->
+  u64_of_i64 v mod 2 ^ k = Z.to_N (v mod 2 ^ Z.of_N k).
+Proof.
+  intros Hk. unfold u64_of_i64. rewrite Zpow_N.
+  assert (Hp := pow2_pos k). assert (Hp64 := pow2_pos 64).
+  change two64 with (2 ^ 64).
+  apply N2Z.inj. rewrite N2Z.inj_mod by lia.
+  rewrite !Z2N.id by (apply Z.mod_pos_bound; lia).
+  replace (2 ^ 64) with (2 ^ k * 2 ^ (64 - k)) by (rewrite <- N.pow_add_r; f_equal; lia).
+  rewrite N2Z.inj_mul.
+  assert (Hq := pow2_pos (64 - k)).
+  rewrite Z.rem_mul_r by lia.
+  rewrite (Z.mul_comm (Z.of_N (2 ^ k)) (_ mod _)), Z.mod_add by lia. apply Z.mod_mod. lia.
+Qed.
+
+Lemma twos_write m k v : 1 <= k <= 64 -> fits k v ->
+  w_2s_compliment m k v = Ok (twos_bits k v).
+Proof.
+  intros Hk Hf. unfold w_2s_compliment.
+  destruct (N.eqb_spec k 0); [lia|]. destruct (N.ltb_spec 64 k); [lia|]. cbn [orb].
+  unfold fits in Hf.
+  destruct (Z.leb_spec (- 2 ^ (Z.of_N k - 1)) v); [|lia].
+  destruct (Z.ltb_spec v (2 ^ (Z.of_N k - 1))); [|lia]. cbn [andb negb].
+  unfold w_bits_ol, bits64. rewrite bov_length.
+  destruct (N.ltb_spec (N.of_nat 64) (64 - k + k)); [lia|].
+  replace (N.to_nat (64 - k)) with (64 - N.to_nat k)%nat by lia.
+  fold (bits64 (u64_of_i64 v)). rewrite skip_bits64 by lia.
+  rewrite firstn_all2 by (rewrite bov_length; lia).
+  unfold twos_bits, field. rewrite <- u64_mod_pow by lia.
+  rewrite <- (bov_mod (N.to_nat k) (u64_of_i64 v)), N2Nat.id. reflexivity.
+Qed.
+
+Lemma twos_reject_len m k v : k = 0 \/ 64 < k -> w_2s_compliment m k v = Err E_BITLEN_RANGE.
+Proof.
+  intros H. unfold w_2s_compliment.
+  destruct (N.eqb_spec k 0); destruct (N.ltb_spec 64 k); cbn [orb]; try reflexivity; lia.
+Qed.
+
+Lemma twos_reject_val m k v : 1 <= k <= 64 -> ~ fits k v -> w_2s_compliment m k v = Err E_VALUE_RANGE.
+Proof.
+  intros Hk Hf. unfold w_2s_compliment.
+  destruct (N.eqb_spec k 0); [lia|]. destruct (N.ltb_spec 64 k); [lia|]. cbn [orb].
+  unfold fits in Hf.
+  destruct (Z.leb_spec (- 2 ^ (Z.of_N k - 1)) v); destruct (Z.ltb_spec v (2 ^ (Z.of_N k - 1)));
+    cbn [andb negb]; try reflexivity; lia.
+Qed.
+
+Lemma hd_bov k x : hd false (bits_of_val (S k) x) = N.testbit x (N.of_nat k).
+Proof. reflexivity. Qed.
+
+Lemma twos_read k v s tail : 1 <= k <= 64 -> fits k v ->
+  at_src s (twos_bits k v) tail ->
+  r_2s_compliment k s = Ok (v, src_adv s k tail).
+Proof.
+  intros Hk Hf Hs. unfold r_2s_compliment.
+  destruct (N.eqb_spec k 0); [lia|]. destruct (N.ltb_spec 64 k); [lia|]. cbn [orb].
+  assert (Hbl : bl (twos_bits k v) = k) by apply field_length.
+  rewrite (r_bits_into_ok _ _ _ 64 (64 - k) k Hs) by lia. cbn [bind].
+  apply fits_N in Hf; [|lia].
+  assert (Hp := pow2_pos (k - 1)). assert (E2 := pow2_succ k ltac:(lia)).
+  unfold twos_bits in *. rewrite Zpow_N.
+  set (y := Z.to_N (v mod Z.of_N (2 ^ k))).
+  assert (Hy : Z.of_N y = (v mod Z.of_N (2 ^ k))%Z).
+  { unfold y. rewrite Z2N.id; [reflexivity|]. apply Z.mod_pos_bound. lia. }
+  assert (Hylt : y < 2 ^ k).
+  { assert (0 <= v mod Z.of_N (2 ^ k) < Z.of_N (2 ^ k))%Z by (apply Z.mod_pos_bound; lia). lia. }
+  unfold field. rewrite vob_bov_small by (rewrite N2Nat.id; exact Hylt).
+  replace (N.to_nat k) with (S (N.to_nat (k - 1))) by lia.
+  rewrite hd_bov, N2Nat.id.
+  rewrite testbit_top by (replace (N.succ (k - 1)) with k by lia; exact Hylt).
+  do 2 f_equal.
+  destruct (Z_lt_le_dec v 0) as [Hneg|Hpos].
+  - assert (v mod Z.of_N (2 ^ k) = v + Z.of_N (2 ^ k))%Z as Em.
+    { symmetry. apply Z.mod_unique with (q := (-1)%Z); lia. }
+    destruct (N.leb_spec (2 ^ (k - 1)) y); lia.
+  - rewrite Z.mod_small in Hy by lia.
+    destruct (N.leb_spec (2 ^ (k - 1)) y); lia.
+Qed.
+
+
+(** ** unconstrained length determinant (lb = ub = None) *)
+Definition frag_of (v : N) : option N :=
+  if v <? 16384 then None else Some (N.min (v / 16384) 4 * 16384).
+
+Lemma byte_bits_field6 b : skipn 2 (byte_bits b) = field 6 b.
+Proof. reflexivity. Qed.
+
+Lemma w_len_unc m v : w_length_determinant m None None v = Ok (x_len_first v, frag_of v).
+Proof.
+  unfold w_length_determinant, x_len_first, x_len_short, frag_of, LENGTH_127, LENGTH_16K, LENGTH_64K, MAX_FRAGMENTS.
+  cbn [is_some orb andb opt_or].
+  destruct (N.leb_spec v 127) as [H1|H1].
+  - rewrite w_nnbi_bounded; cbn [opt_or]; [|right; discriminate|unfold two64; lia|lia].
+    cbn [bind]. rewrite !N.sub_0_r. destruct (N.ltb_spec v 16384); [|lia]. reflexivity.
+  - destruct (N.ltb_spec v 16384) as [H2|H2].
+    + rewrite w_nnbi_bounded; cbn [opt_or]; [|right; discriminate|unfold two64; lia|lia].
+      cbn [bind]. rewrite !N.sub_0_r. reflexivity.
+    + rewrite byte_bits_field6. reflexivity.
+Qed.
+
+Lemma r_len_unc_eq m s : r_length_determinant m None None s = r_length_determinant_unc s.
+Proof. reflexivity. Qed.
+
+(** ** unconstrained whole number *)
+Lemma octets_of_size n : n < two63 ->
+  let o := 8 - (64 - N.size n - 1) / 8 in
+  o = N.max 1 ((nbits n + 1 + 7) / 8) /\ 1 <= o <= 8 /\ n < 2 ^ (8 * o - 1).
+Proof.
+  intros Hn o. assert (Hs : N.size n <= 63) by (apply size_le_of_lt; exact Hn).
+  unfold nbits. subst o. split; [lia|]. split; [lia|].
+  eapply N.lt_le_trans; [apply size_bound|]. apply N.pow_le_mono_r; lia.
+Qed.
+
+Lemma unconstrained_len v : is_i64 v ->
+  let x := u64_of_i64 v in
+  let lead := if (v <? 0)%Z then lo64 x else lz64 x in
+  let o := 8 - (lead - 1) / 8 in
+  o = twos_octets v /\ 1 <= o <= 8 /\ fits (8 * o) v.
+Proof.
+  intros Hv x lead o. unfold is_i64 in Hv. rewrite Ztwo63 in Hv.
+  unfold twos_octets.
+  destruct (Z.ltb_spec v 0) as [Hneg|Hpos]; destruct (Z.leb_spec 0 v); try lia.
+  - assert (Ex : two64 - 1 - x = Z.to_N (- v - 1)).
+    { unfold x. rewrite u64_of_i64_neg by (rewrite Ztwo64; lia). rewrite Ztwo64. unfold two64. lia. }
+    set (n := Z.to_N (- v - 1)) in *.
+    destruct (octets_of_size n ltac:(unfold two63; lia)) as (E & R & L).
+    unfold o, lead, lo64. rewrite Ex. unfold lz64.
+    split; [exact E|]. split; [exact R|].
+    apply fits_N; [lia|].
+    lia.
+  - assert (Ex : x = Z.to_N v).
+    { unfold x. apply u64_of_i64_nonneg. rewrite Ztwo64. lia. }
+    set (n := Z.to_N v) in *.
+    destruct (octets_of_size n ltac:(unfold two63; lia)) as (E & R & L).
+    unfold o, lead. rewrite Ex. unfold lz64.
+    split; [exact E|]. split; [exact R|].
+    apply fits_N; [lia|]. lia.
+Qed.
+
+Lemma unconstrained_write m v : is_i64 v -> w_unconstrained m v = Ok (x_unconstrained v).
+Proof.
+  intros Hv. destruct (unconstrained_len v Hv) as (E & R & F). cbv zeta in E, R, F.
+  unfold w_unconstrained, x_unconstrained.
+  set (o := 8 - ((if (v <? 0)%Z then lo64 (u64_of_i64 v) else lz64 (u64_of_i64 v)) - 1) / 8) in *.
+  rewrite w_len_unc. cbn [bind].
+  rewrite (N.mul_comm o 8), twos_write by (auto; lia). cbn [bind].
+  unfold x_len_first. destruct (N.ltb_spec o 16384); [|lia]. rewrite <- E. reflexivity.
+Qed.
+
+Lemma unconstrained_read m v s tail : is_i64 v ->
+  at_src s (x_unconstrained v) tail ->
+  r_unconstrained m s = Ok (v, src_adv s (bl (x_unconstrained v)) tail).
+Proof.
+  intros Hv Hs. destruct (unconstrained_len v Hv) as (E & R & F). cbv zeta in E, R, F.
+  rewrite E in R, F. unfold x_unconstrained in *. set (o := twos_octets v) in *.
+  rewrite x_len_short_small in * by lia.
+  unfold r_unconstrained. rewrite r_len_unc_eq.
+  apply at_src_split in Hs. destruct Hs as [H1 H2].
+  assert (Hle : o <= 127) by lia.
+  rewrite (r_len_unc_short _ _ _ Hle H1). cbn [bind].
+  assert (B : bl (false :: field 7 o) = 8) by (rewrite bl_cons, field_length; lia).
+  rewrite B in H2. rewrite (N.mul_comm o 8).
+  rewrite (twos_read (8 * o) v _ tail) by (auto; lia).
+  rewrite src_adv_adv, bl_app, B. unfold twos_field. rewrite field_length. reflexivity.
+Qed.
+
+
+(** ** enumeration / choice index *)
+Lemma x_index_root std ext i : i < std ->
+  x_index std ext i =
+  Some ((if ext then [false] else []) ++ field (nbits (std - 1)) i).
+Proof.
+  intros H. unfold x_index. destruct (N.ltb_spec i std); [|lia].
+  replace (Z.of_N std - 1)%Z with (Z.of_N (std - 1)) by lia.
+  change 0%Z with (Z.of_N 0). rewrite x_constrained_N.
+  destruct (N.leb_spec 0 i); [|lia]. destruct (N.leb_spec i (std - 1)); [|lia]. cbn [andb].
+  rewrite !N.sub_0_r. destruct ext; reflexivity.
+Qed.
+
+Lemma x_index_ext std i : std <= i ->
+  x_index std true i = Some (true :: x_normally_small (i - std)).
+Proof. intros H. unfold x_index. destruct (N.ltb_spec i std); [lia|]. reflexivity. Qed.
+
+Lemma x_index_none std ext i : x_index std ext i = None <-> std <= i /\ ext = false.
+Proof.
+  destruct (N.lt_ge_cases i std) as [H|H].
+  - rewrite x_index_root by exact H. split; [discriminate|lia].
+  - destruct ext; [rewrite x_index_ext by exact H; split; [discriminate|intros [_ ?]; discriminate]|].
+    unfold x_index. destruct (N.ltb_spec i std); [lia|]. tauto.
+Qed.
+
+Lemma index_write m std ext i bs : std < two64 -> i < two64 ->
+  x_index std ext i = Some bs -> w_enumeration_index m std ext i = Ok bs.
+Proof.
+  intros Hs Hi Hx. unfold w_enumeration_index.
+  destruct (N.leb_spec std i) as [Ho|Hin].
+  - destruct ext; [|rewrite (proj2 (x_index_none std false i)) in Hx by auto; discriminate].
+    rewrite x_index_ext in Hx by exact Ho. injection Hx as <-.
+    rewrite usub_ok by exact Ho. cbn [bind].
+    rewrite normally_small_write by lia. reflexivity.
+  - rewrite x_index_root in Hx by exact Hin. injection Hx as <-.
+    rewrite usub_ok by lia. cbn [bind].
+    rewrite w_nnbi_bounded; cbn [opt_or]; [|right; discriminate|lia|lia].
+    cbn [bind]. rewrite !N.sub_0_r. reflexivity.
+Qed.
+
+Lemma index_reject m std ext i :
+  x_index std ext i = None -> w_enumeration_index m std ext i = Err E_INVALID_CHOICE.
+Proof.
+  intros Hx. apply x_index_none in Hx. destruct Hx as [Ho ->]. unfold w_enumeration_index.
+  destruct (N.leb_spec std i); [reflexivity|lia].
+Qed.
+
+Lemma index_read m std ext i bs s tail : std < two64 -> i < two64 ->
+  x_index std ext i = Some bs -> at_src s bs tail ->
+  r_enumeration_index m std ext s = Ok (i, src_adv s (bl bs) tail).
+Proof.
+  intros Hs Hi Hx Hsrc. unfold r_enumeration_index.
+  destruct (N.lt_ge_cases i std) as [Hin|Ho].
+  - rewrite x_index_root in Hx by exact Hin. injection Hx as <-.
+    assert (Small : forall s', at_src s' (field (nbits (std - 1)) i) tail ->
+       (if std =? 0 then Err E_INVALID_CHOICE else r_nnbi m None (Some (std - 1)) s')
+       = Ok (i, src_adv s' (bl (field (nbits (std - 1)) i)) tail)).
+    { intros s' H'. destruct (N.eqb_spec std 0); [lia|].
+      rewrite (r_nnbi_bounded m None (Some (std - 1)) i s' tail); cbn [opt_or]; rewrite ?N.sub_0_r;
+        [reflexivity|right; discriminate|lia|lia|exact H']. }
+    destruct ext; cbn [app] in *.
+    + apply at_src_cons in Hsrc. destruct Hsrc as [H1 H2].
+      rewrite (r_bit_ok _ _ _ H1). cbn [bind]. rewrite (Small _ H2), src_adv_adv, bl_cons. reflexivity.
+    + apply Small, Hsrc.
+  - destruct ext; [|rewrite (proj2 (x_index_none std false i)) in Hx by auto; discriminate].
+    rewrite x_index_ext in Hx by exact Ho. injection Hx as <-.
+    apply at_src_cons in Hsrc. destruct Hsrc as [H1 H2].
+    rewrite (r_bit_ok _ _ _ H1). cbn [bind].
+    rewrite (normally_small_read m (i - std) _ tail ltac:(lia) H2). cbn [bind].
+    destruct (N.ltb_spec (i - std + std) two64) as [Hlt|Hge]; [|lia].
+    rewrite src_adv_adv, bl_cons. do 3 f_equal. lia.
+Qed.
+
+Lemma index_read_empty m s : r_enumeration_index m 0 false s = Err E_INVALID_CHOICE.
+Proof. reflexivity. Qed.
+
+
+(** ** length determinant *)
+(* F10-1: a lower bound without an upper bound, or an upper bound of 64K or more: the code
+   uses a 63/17..-bit constrained form (and handles the lower bound twice) where X.691 11.9.4.2
+   prescribes the unconstrained form *)
+Definition Known_C10_length_semi_or_large_bound (lb ub : option N) : Prop :=
+  match ub with Some u => 65536 <= u | None => lb <> None end.
+
+Lemma known_length_branch lb ub :
+  (is_some lb || is_some ub) && (LENGTH_64K <=? opt_or ub I64_MAX) = true
+  <-> Known_C10_length_semi_or_large_bound lb ub.
+Proof.
+  unfold Known_C10_length_semi_or_large_bound, LENGTH_64K.
+  destruct lb as [l|], ub as [u|]; cbn [is_some orb andb opt_or].
+  - apply N.leb_le.
+  - split; [discriminate|reflexivity].
+  - apply N.leb_le.
+  - split; [discriminate|congruence].
+Qed.
+
+Lemma not_known_cases lb ub : ~ Known_C10_length_semi_or_large_bound lb ub ->
+  (exists u, ub = Some u /\ u < 65536) \/ (lb = None /\ ub = None).
+Proof.
+  unfold Known_C10_length_semi_or_large_bound. destruct ub as [u|].
+  - intros H. left. exists u. split; [reflexivity|lia].
+  - intros H. right. destruct lb; [exfalso; apply H; discriminate|auto].
+Qed.
+
+Definition len_frag (ub : option N) (v : N) : option N :=
+  match ub with Some _ => None | None => frag_of v end.
+(* what the reader reports: the count, or the size of the first fragment *)
+Definition len_result (ub : option N) (v : N) : N :=
+  match len_frag ub v with Some f => f | None => v end.
+
+Lemma w_len_constrained m lb u v : u < 65536 ->
+  w_length_determinant m lb (Some u) v = let! b := w_nnbi m lb (Some u) v in Ok (b, None).
+Proof.
+  intros Hu. unfold w_length_determinant, LENGTH_64K. cbn [opt_or is_some].
+  rewrite orb_true_r. cbn [andb].
+  destruct (N.leb_spec 65536 u); [lia|]. destruct (N.leb_spec u 65536); [|lia]. reflexivity.
+Qed.
+
+Lemma r_len_constrained m lb u s : u < 65536 ->
+  r_length_determinant m lb (Some u) s = r_nnbi m lb (Some u) s.
+Proof.
+  intros Hu. unfold r_length_determinant, LENGTH_64K. cbn [opt_or is_some].
+  rewrite orb_true_r. cbn [andb].
+  destruct (N.leb_spec 65536 u); [lia|]. destruct (N.leb_spec u 65536); [|lia]. reflexivity.
+Qed.
+
+Lemma x_length_constrained lb u v : u < 65536 ->
+  x_length lb (Some u) v =
+  x_constrained (Z.of_N (opt_or lb 0)) (Z.of_N (opt_or (Some u) I64_MAX)) (Z.of_N v).
+Proof.
+  intros Hu. unfold x_length. destruct (N.ltb_spec u 65536); [|lia]. destruct lb; reflexivity.
+Qed.
+
+Lemma length_write m lb ub v bs : ~ Known_C10_length_semi_or_large_bound lb ub ->
+  x_length lb ub v = Some bs ->
+  w_length_determinant m lb ub v = Ok (bs, len_frag ub v).
+Proof.
+  intros Hk Hx. destruct (not_known_cases lb ub Hk) as [(u & -> & Hu)|[-> ->]].
+  - rewrite w_len_constrained by exact Hu. rewrite x_length_constrained in Hx by exact Hu.
+    assert (Hb : nn_bounded lb (Some u)) by (right; discriminate).
+    assert (Hu64 : opt_or (Some u) I64_MAX < two64) by (cbn [opt_or]; unfold two64; lia).
+    pose proof Hx as Hx'. rewrite x_constrained_N in Hx'.
+    destruct (N.leb_spec (opt_or lb 0) v); [|discriminate].
+    destruct (N.leb_spec v (opt_or (Some u) I64_MAX)); [|discriminate].
+    destruct (nnbi_write m lb (Some u) v Hb Hu64 ltac:(lia)) as (bs' & Ew & Ex).
+    rewrite Ew. cbn [bind len_frag]. rewrite Hx in Ex. injection Ex as E1. subst bs'. reflexivity.
+  - rewrite w_len_unc. unfold x_length in Hx. destruct (N.leb_spec 0 v); [|lia]. injection Hx as E1. subst bs. reflexivity.
+Qed.
+
+Lemma length_reject m lb ub v : ~ Known_C10_length_semi_or_large_bound lb ub ->
+  x_length lb ub v = None -> w_length_determinant m lb ub v = Err E_VALUE_RANGE.
+Proof.
+  intros Hk Hx. destruct (not_known_cases lb ub Hk) as [(u & -> & Hu)|[-> ->]].
+  - rewrite w_len_constrained by exact Hu. rewrite x_length_constrained in Hx by exact Hu.
+    rewrite x_constrained_N in Hx. rewrite w_nnbi_reject; [reflexivity|right; discriminate|].
+    destruct (N.leb_spec (opt_or lb 0) v); [|lia].
+    destruct (N.leb_spec v (opt_or (Some u) I64_MAX)); [discriminate|lia].
+  - unfold x_length in Hx. destruct (N.leb_spec 0 v); [discriminate|lia].
+Qed.
+
+Lemma r_len_unc_mid s n tail : 127 < n < 16384 ->
+  at_src s (true :: false :: field 14 n) tail ->
+  r_length_determinant_unc s = Ok (n, src_adv s 16 tail).
+Proof.
+  intros Hn Hs. unfold r_length_determinant_unc.
+  apply at_src_cons in Hs. destruct Hs as [H1 H2].
+  rewrite (r_bit_ok _ _ _ H1). cbn [bind negb].
+  apply at_src_cons in H2. destruct H2 as [H2 H3].
+  rewrite (r_bit_ok _ _ _ H2). cbn [bind negb].
+  rewrite (r_bits_into_ok _ _ _ 64 50 14 H3) by (try rewrite field_length; lia).
+  cbn [bind]. rewrite !src_adv_adv. unfold field. rewrite vob_bov_small by (cbn; lia). reflexivity.
+Qed.
+
+Lemma r_len_unc_big s k tail : k <= 4 ->
+  at_src s (true :: true :: field 6 k) tail ->
+  r_length_determinant_unc s = Ok (16384 * k, src_adv s 8 tail).
+Proof.
+  intros Hn Hs. unfold r_length_determinant_unc.
+  apply at_src_cons in Hs. destruct Hs as [H1 H2].
+  rewrite (r_bit_ok _ _ _ H1). cbn [bind negb].
+  apply at_src_cons in H2. destruct H2 as [H2 H3].
+  rewrite (r_bit_ok _ _ _ H2). cbn [bind negb].
+  rewrite (r_bits_into_ok _ _ _ 8 2 6 H3) by (try rewrite field_length; lia).
+  cbn [bind]. rewrite !src_adv_adv. unfold field. rewrite vob_bov_small by (cbn; lia).
+  unfold LENGTH_16K, MAX_FRAGMENTS. do 2 f_equal. lia.
+Qed.
+
+Lemma r_len_unc_first s v tail :
+  at_src s (x_len_first v) tail ->
+  r_length_determinant_unc s = Ok (len_result None v, src_adv s (bl (x_len_first v)) tail).
+Proof.
+  unfold x_len_first, len_result, len_frag, frag_of, x_len_short.
+  destruct (N.ltb_spec v 16384) as [H16|H16].
+  - destruct (N.leb_spec v 127) as [H7|H7]; intros Hs.
+    + rewrite (r_len_unc_short _ _ _ H7 Hs). rewrite bl_cons, field_length. reflexivity.
+    + rewrite (r_len_unc_mid _ v _ ltac:(lia) Hs). rewrite !bl_cons, field_length. reflexivity.
+  - intros Hs. rewrite (r_len_unc_big _ (N.min (v / 16384) 4) _ ltac:(lia) Hs). rewrite !bl_cons, field_length.
+    do 2 f_equal. lia.
+Qed.
+
+Lemma length_read m lb ub v bs s tail : ~ Known_C10_length_semi_or_large_bound lb ub ->
+  x_length lb ub v = Some bs -> at_src s bs tail ->
+  r_length_determinant m lb ub s = Ok (len_result ub v, src_adv s (bl bs) tail).
+Proof.
+  intros Hk Hx Hs. destruct (not_known_cases lb ub Hk) as [(u & -> & Hu)|[-> ->]].
+  - rewrite r_len_constrained by exact Hu. rewrite x_length_constrained in Hx by exact Hu.
+    apply nnbi_read; auto; [right; discriminate|cbn [opt_or]; unfold two64; lia].
+  - rewrite r_len_unc_eq. unfold x_length in Hx. destruct (N.leb_spec 0 v); [|lia]. injection Hx as E1. subst bs. apply r_len_unc_first, Hs.
+Qed.
+
+Lemma refuted_length_semi_or_large_bound :
+  exists m lb ub v bs, Known_C10_length_semi_or_large_bound lb ub /\
+    x_length lb ub v = Some bs /\ w_length_determinant m lb ub v <> Ok (bs, None)
+    /\ is_ok (w_length_determinant m lb ub v) = true.
+Proof.
+  exists dev_mode, (Some 1), None, 3, (x_len_first 3).
+  split; [discriminate|]. split; [reflexivity|]. split; [vm_compute; discriminate|reflexivity].
+Qed.
+
+Lemma refuted_length_large_bound :
+  exists m lb ub v bs, Known_C10_length_semi_or_large_bound lb ub /\ lb = None /\
+    x_length lb ub v = Some bs /\ w_length_determinant m lb ub v <> Ok (bs, None)
+    /\ is_ok (w_length_determinant m lb ub v) = true.
+Proof.
+  exists release_mode, None, (Some 65536), 3, (x_len_first 3).
+  split; [cbn; lia|]. split; [reflexivity|]. split; [reflexivity|]. split; [vm_compute; discriminate|reflexivity].
+Qed.
+
+
+(** ** fragmentation *)
+Lemma x_frag_fuel unit : forall f1 f2 n body,
+  n / 16384 < N.of_nat f1 -> n / 16384 < N.of_nat f2 ->
+  x_frag f1 unit n body = x_frag f2 unit n body.
+Proof.
+  induction f1 as [|f1 IH]; intros f2 n body H1 H2; [lia|].
+  destruct f2 as [|f2]; [lia|]. cbn [x_frag].
+  destruct (N.ltb_spec n 16384) as [Hs|Hb]; [reflexivity|].
+  do 4 f_equal. apply IH; lia.
+Qed.
+
+Lemma w_bits_ol_ok srcb off len : off + len <= bl srcb ->
+  w_bits_ol srcb off len = Ok (firstn (N.to_nat len) (skipn (N.to_nat off) srcb)).
+Proof. intros H. unfold w_bits_ol. fold (bl srcb). destruct (N.ltb_spec (bl srcb) (off + len)); [lia|reflexivity]. Qed.
+
+Lemma firstn_skipn_all {A} (l : list A) a b : (a + b = length l)%nat -> firstn b (skipn a l) = skipn a l.
+Proof. intros H. apply firstn_all2. rewrite skipn_length. lia. Qed.
+
+Lemma skipn_skipn' {A} b : forall a (l : list A), skipn a (skipn b l) = skipn (b + a) l.
+Proof.
+  induction b as [|b IH]; intros a l; [reflexivity|].
+  destruct l as [|x l]; [destruct a; reflexivity|]. cbn [plus skipn]. apply IH.
+Qed.
+
+Lemma x_len_first_short n : n < 16384 -> x_len_first n = x_len_short n.
+Proof. intros H. unfold x_len_first. destruct (N.ltb_spec n 16384); [reflexivity|lia]. Qed.
+Lemma x_len_first_big n : 16384 <= n -> x_len_first n = true :: true :: field 6 (N.min (n / 16384) 4).
+Proof. intros H. unfold x_len_first. destruct (N.ltb_spec n 16384); [lia|reflexivity]. Qed.
+Lemma frag_of_short n : n < 16384 -> frag_of n = None.
+Proof. intros H. unfold frag_of. destruct (N.ltb_spec n 16384); [reflexivity|lia]. Qed.
+Lemma frag_of_big n : 16384 <= n -> frag_of n = Some (N.min (n / 16384) 4 * 16384).
+Proof. intros H. unfold frag_of. destruct (N.ltb_spec n 16384); [lia|reflexivity]. Qed.
+
+Lemma octet_loop_spec m srcb length : bl srcb = 8 * length ->
+  forall fuel written, written <= length -> (length - written) / 16384 < N.of_nat fuel ->
+  w_octet_frag_loop fuel m srcb length written =
+  Ok (x_frag fuel 8 (length - written) (skipn (N.to_nat (8 * written)) srcb)).
+Proof.
+  intros Hlen. induction fuel as [|f IH]; intros written Hw Hf; [lia|].
+  cbn [w_octet_frag_loop x_frag]. rewrite w_len_unc. cbn [bind].
+  set (rem := length - written) in *. unfold MIN_FRAGMENT_SIZE.
+  destruct (N.ltb_spec rem 16384) as [Hs|Hb].
+  - rewrite frag_of_short, x_len_first_short by exact Hs. cbn [opt_or].
+    rewrite w_bits_ol_ok by lia. cbn [bind].
+    destruct (N.ltb_spec rem 16384); [|lia].
+    rewrite firstn_skipn_all by (unfold bl in Hlen; lia). reflexivity.
+  - rewrite frag_of_big, x_len_first_big by exact Hb. cbn [opt_or].
+    set (k := N.min (rem / 16384) 4). set (cnt := k * 16384).
+    assert (Hc : 16384 <= cnt <= rem) by lia.
+    rewrite w_bits_ol_ok by lia. cbn [bind].
+    destruct (N.ltb_spec cnt 16384); [lia|].
+    rewrite IH by lia. cbn [bind app].
+    rewrite skipn_skipn'.
+    replace (cnt * 8) with (8 * cnt) by lia.
+    replace (rem - cnt) with (length - (written + cnt)) by lia.
+    replace (N.to_nat (8 * written) + N.to_nat (8 * cnt))%nat with (N.to_nat (8 * (written + cnt))) by lia.
+    reflexivity.
+Qed.
+
+(* the continuation of write_octetstring after the first length determinant *)
+Definition octet_cont (m : mode) (pre srcb : bits) (length : N) (hb : bits) (fs : option N) : res bits :=
+  let first := opt_or fs length in
+  if length <? first then Panic P_SLICE_RANGE else
+  let! body := w_bits_ol srcb 0 (8 * first) in
+  match fs with
+  | None => Ok (pre ++ hb ++ body)
+  | Some written =>
+      let! more := w_octet_frag_loop (S (N.to_nat (length / MIN_FRAGMENT_SIZE) + 1)) m srcb length written in
+      Ok (pre ++ hb ++ body ++ more)
+  end.
+
+Lemma w_octetstring_eq m lb ub extensible srcbytes :
+  w_octetstring m lb ub extensible srcbytes =
+  (let lower := opt_or lb 0 in
+   let upper := opt_or ub I64_MAX in
+   let length := blen srcbytes in
+   let srcb := bits_of_bytes srcbytes in
+   let out_of_range := (length <? lower) || (upper <? length) in
+   let pre := if extensible then [out_of_range] else [] in
+   if out_of_range then
+     if extensible then
+       let! (hb, fs) := w_length_determinant m None None length in octet_cont m pre srcb length hb fs
+     else Err E_SIZE_RANGE
+   else if upper =? 0 then Ok pre
+   else if is_some lb && opt_n_eqb lb ub && (upper <? LENGTH_64K) then octet_cont m pre srcb length [] None
+   else let! (hb, fs) := w_length_determinant m lb ub length in octet_cont m pre srcb length hb fs).
+Proof. reflexivity. Qed.
+
+Lemma octet_cont_none m pre srcb n hb : bl srcb = 8 * n ->
+  octet_cont m pre srcb n hb None = Ok (pre ++ hb ++ srcb).
+Proof.
+  intros Hl. unfold octet_cont. cbn [opt_or]. rewrite N.ltb_irrefl.
+  rewrite w_bits_ol_ok by lia. cbn [bind skipn N.to_nat].
+  rewrite firstn_all2 by (unfold bl in Hl; lia). reflexivity.
+Qed.
+
+Lemma octet_cont_unc m pre srcb n : bl srcb = 8 * n ->
+  octet_cont m pre srcb n (x_len_first n) (frag_of n) =
+  Ok (pre ++ x_unconstrained_length_run 8 n srcb).
+Proof.
+  intros Hl. unfold x_unconstrained_length_run. cbn [x_frag].
+  destruct (N.ltb_spec n 16384) as [Hs|Hb].
+  - rewrite frag_of_short, x_len_first_short by exact Hs. apply octet_cont_none, Hl.
+  - rewrite frag_of_big, x_len_first_big by exact Hb.
+    set (k := N.min (n / 16384) 4). set (cnt := k * 16384).
+    assert (Hc : 16384 <= cnt <= n) by lia.
+    unfold octet_cont. cbn [opt_or]. destruct (N.ltb_spec n cnt); [lia|].
+    rewrite w_bits_ol_ok by lia. cbn [bind skipn N.to_nat].
+    unfold MIN_FRAGMENT_SIZE.
+    rewrite (octet_loop_spec m srcb n Hl) by lia. cbn [bind app].
+    replace (cnt * 8) with (8 * cnt) by lia.
+    rewrite (x_frag_fuel 8 _ (N.to_nat (n / 16384))) by lia.
+    reflexivity.
+Qed.
+
+(** ** OCTET STRING *)
+(* the sizes for which the length determinant of a sized run is in the F10-1 class *)
+Definition Known_C10_sized_length (lb ub : option N) (n : N) : Prop :=
+  Known_C10_length_semi_or_large_bound lb ub /\ opt_or lb 0 <= n <= opt_or ub I64_MAX.
+
+Lemma x_sized_run_eq unit lb ub extensible n body :
+  x_sized_run unit lb ub extensible n body =
+  (let l := opt_or lb 0 in
+   let in_root := (l <=? n) && (match ub with Some u => n <=? u | None => true end) in
+   if in_root then
+     let pre := if extensible then [false] else [] in
+     match ub with
+     | Some u =>
+        if u =? 0 then Some pre
+        else if (l =? u) && (u <? 65536) then Some (pre ++ body)
+        else if u <? 65536 then
+          match x_constrained (Z.of_N l) (Z.of_N u) (Z.of_N n) with
+          | Some lenb => Some (pre ++ lenb ++ body)
+          | None => None
+          end
+        else Some (pre ++ x_unconstrained_length_run unit n body)
+     | None => Some (pre ++ x_unconstrained_length_run unit n body)
+     end
+   else if extensible then Some (true :: x_unconstrained_length_run unit n body)
+   else None).
+Proof. destruct lb; reflexivity. Qed.
+
+Lemma bits_len8 l : bl (bits_of_bytes l) = 8 * blen l.
+Proof.
+  unfold bl, blen, bits_of_bytes. induction l as [|b l IH]; [reflexivity|].
+  cbn [flat_map]. rewrite app_length. cbn [length byte_bits]. lia.
+Qed.
+
+Lemma octetstring_write m lb ub extensible bytes :
+  blen bytes < two63 -> ~ Known_C10_sized_length lb ub (blen bytes) ->
+  w_octetstring m lb ub extensible bytes =
+  match x_octetstring lb ub extensible bytes with Some bs => Ok bs | None => Err E_SIZE_RANGE end.
+Proof.
+  intros Hn Hk. rewrite w_octetstring_eq. unfold x_octetstring. rewrite x_sized_run_eq. cbv zeta.
+  fold (blen bytes). set (n := blen bytes) in *. set (srcb := bits_of_bytes bytes).
+  assert (Hl : bl srcb = 8 * n) by apply bits_len8.
+  set (lower := opt_or lb 0). set (upper := opt_or ub I64_MAX).
+  assert (Hup : (match ub with Some u => n <=? u | None => true end) = (n <=? upper)).
+  { unfold upper. destruct ub as [u|]; cbn [opt_or]; [reflexivity|].
+    symmetry. apply N.leb_le. unfold I64_MAX. lia. }
+  rewrite Hup.
+  destruct (N.ltb_spec n lower) as [Hlo|Hlo]; destruct (N.leb_spec lower n) as [Hlo'|Hlo']; try lia; cbn [orb andb].
+  { destruct extensible; [|reflexivity]. rewrite w_len_unc. cbn [bind]. apply octet_cont_unc, Hl. }
+  destruct (N.ltb_spec upper n) as [Hhi|Hhi]; destruct (N.leb_spec n upper) as [Hhi'|Hhi']; try lia.
+  { destruct extensible; [|reflexivity]. rewrite w_len_unc. cbn [bind]. apply octet_cont_unc, Hl. }
+  set (pre := if extensible then [false] else []).
+  assert (Hnk : ~ Known_C10_length_semi_or_large_bound lb ub).
+  { intros K. apply Hk. split; [exact K|]. fold lower upper. lia. }
+  destruct (not_known_cases lb ub Hnk) as [(u & Eu & Hu)|[El Eu]].
+  - subst ub. cbn [opt_or] in upper. subst upper.
+    destruct (N.eqb_spec u 0) as [H0|H0]; [reflexivity|].
+    unfold LENGTH_64K. destruct (N.ltb_spec u 65536); [|lia]. rewrite andb_true_r.
+    assert (Efix : is_some lb && opt_n_eqb lb (Some u) = (lower =? u)).
+    { unfold lower. destruct lb as [l|]; cbn [is_some opt_n_eqb opt_or andb]; [reflexivity|].
+      symmetry. apply N.eqb_neq. lia. }
+    rewrite Efix. destruct (N.eqb_spec lower u) as [Hfx|Hfx].
+    + rewrite octet_cont_none by exact Hl. reflexivity.
+    + assert (Hx : x_length lb (Some u) n =
+                   x_constrained (Z.of_N lower) (Z.of_N u) (Z.of_N n)) by (apply x_length_constrained; lia).
+      destruct (x_constrained (Z.of_N lower) (Z.of_N u) (Z.of_N n)) as [lenb|] eqn:Ec.
+      * rewrite (length_write m lb (Some u) n lenb Hnk Hx). cbn [bind len_frag].
+        apply octet_cont_none, Hl.
+      * rewrite x_constrained_N in Ec.
+        destruct (N.leb_spec lower n); [|lia]. destruct (N.leb_spec n u); [discriminate|lia].
+  - subst lb ub. cbn [opt_or is_some andb] in *.
+    destruct (N.eqb_spec upper 0) as [H0|H0]; [unfold upper, I64_MAX in H0; cbn in H0; lia|].
+    rewrite w_len_unc. cbn [bind]. apply octet_cont_unc, Hl.
+Qed.
+
+
+Lemma octetstring_reject m lb ub bytes :
+  blen bytes < opt_or lb 0 \/ opt_or ub I64_MAX < blen bytes ->
+  w_octetstring m lb ub false bytes = Err E_SIZE_RANGE.
+Proof.
+  intros H. rewrite w_octetstring_eq. cbv zeta.
+  destruct (N.ltb_spec (blen bytes) (opt_or lb 0)); destruct (N.ltb_spec (opt_or ub I64_MAX) (blen bytes));
+    cbn [orb]; try reflexivity; lia.
+Qed.
+
+(** ** OCTET STRING reader *)
+Lemma alloc_ok n : n <= ALLOC_LIMIT -> alloc n = Ok tt.
+Proof.
+  intros H. unfold alloc. unfold ALLOC_LIMIT in *.
+  destruct (N.ltb_spec I64_MAX n) as [L|L]; [unfold I64_MAX, two63 in L; lia|].
+  destruct (N.ltb_spec 4294967296 n); [lia|reflexivity].
+Qed.
+
+Lemma x_frag_len_ge unit : forall f n body, n / 16384 < N.of_nat f ->
+  n / 16384 <= bl (x_frag f unit n body).
+Proof.
+  induction f as [|f IH]; intros n body Hf; [lia|]. cbn [x_frag].
+  destruct (N.ltb_spec n 16384) as [Hs|Hb]; [lia|].
+  rewrite !bl_cons, !bl_app, field_length.
+  set (cnt := N.min (n / 16384) 4 * 16384).
+  assert (Hc : 16384 <= cnt <= n /\ cnt <= 65536) by lia.
+  assert (Hf' : (n - cnt) / 16384 < N.of_nat f) by lia.
+  specialize (IH (n - cnt) (skipn (N.to_nat (cnt * unit)) body) Hf'). lia.
+Qed.
+
+Lemma bl_firstn (l : bits) k : k <= bl l -> bl (firstn (N.to_nat k) l) = k.
+Proof. unfold bl. intros H. rewrite firstn_length. lia. Qed.
+Lemma bl_skipn (l : bits) k : bl (skipn (N.to_nat k) l) = bl l - k.
+Proof. unfold bl. rewrite skipn_length. lia. Qed.
+
+Lemma r_octet_loop_spec m : forall fuel fx n body s acc tail,
+  bl body = 8 * n -> n / 16384 < N.of_nat fuel -> n / 16384 < N.of_nat fx ->
+  at_src s (x_frag fx 8 n body) tail ->
+  r_octet_frag_loop fuel m s acc = Ok (acc ++ body, src_adv s (bl (x_frag fx 8 n body)) tail).
+Proof.
+  induction fuel as [|fuel IH]; intros fx n body s acc tail Hl Hf Hfx Hs; [lia|].
+  destruct fx as [|fx]; [lia|]. cbn [r_octet_frag_loop x_frag] in *. rewrite r_len_unc_eq.
+  revert Hs. destruct (N.ltb_spec n 16384) as [Hsm|Hbg]; intros Hs.
+  - rewrite <- (x_len_first_short n Hsm) in Hs |- *.
+    apply at_src_split in Hs. destruct Hs as [H1 H2].
+    rewrite (r_len_unc_first _ _ _ H1). cbn [bind].
+    unfold len_result, len_frag. rewrite frag_of_short by exact Hsm.
+    rewrite alloc_ok by (unfold ALLOC_LIMIT; lia). cbn [bind].
+    rewrite (r_bits_ok _ _ _ _ H2) by lia. cbn [bind]. unfold LENGTH_16K.
+    destruct (N.ltb_spec n 16384); [|lia]. rewrite src_adv_adv, bl_app, Hl. reflexivity.
+  - set (k := N.min (n / 16384) 4) in *. set (cnt := k * 16384) in *.
+    assert (Hc : 16384 <= cnt <= n /\ cnt <= 65536) by lia.
+    change (true :: true :: field 6 k ++ ?a ++ ?b) with ((true :: true :: field 6 k) ++ a ++ b) in *.
+    unfold k in Hs |- *. rewrite <- (x_len_first_big n Hbg) in Hs |- *. fold k in Hs |- *. fold cnt in Hs |- *.
+    apply at_src_split in Hs. destruct Hs as [H1 H2].
+    apply at_src_split in H2. destruct H2 as [H2 H3].
+    rewrite (r_len_unc_first _ _ _ H1). cbn [bind].
+    unfold len_result, len_frag. rewrite frag_of_big by exact Hbg. fold k cnt.
+    rewrite alloc_ok by (unfold ALLOC_LIMIT; lia). cbn [bind].
+    assert (Hfl : bl (firstn (N.to_nat (cnt * 8)) body) = 8 * cnt) by (rewrite bl_firstn; lia).
+    rewrite (r_bits_ok _ _ _ _ H2) by lia. cbn [bind]. unfold LENGTH_16K.
+    destruct (N.ltb_spec cnt 16384); [lia|].
+    rewrite src_adv_adv in H3 |- *. rewrite Hfl in H3.
+    rewrite (IH fx (n - cnt) (skipn (N.to_nat (cnt * 8)) body) _ _ tail); [| |lia|lia|exact H3].
+    + rewrite src_adv_adv, <- app_assoc, firstn_skipn, !bl_app. do 3 f_equal. lia.
+    + rewrite bl_skipn. lia.
+Qed.
+
+Definition octet_rbody (m : mode) (byte_len : N) (frag : bool) (s : src) : res (bits * src) :=
+  let! _ := alloc byte_len in
+  let! (bs, s) := r_bits s (8 * byte_len) in
+  if frag && (LENGTH_16K <=? byte_len) then
+    r_octet_frag_loop (S (N.to_nat (s_len s - s_pos s))) m s bs
+  else Ok (bs, s).
+
+Lemma r_octetstring_eq m lb ub extensible s :
+  r_octetstring m lb ub extensible s =
+  (let upper := opt_or ub I64_MAX in
+   let rest (s : src) :=
+    if upper =? 0 then Ok ([], s)
+    else if is_some lb && opt_n_eqb lb ub && (upper <? LENGTH_64K) then octet_rbody m upper false s
+    else let! (l, s) := r_length_determinant m lb ub s in octet_rbody m l (negb (is_some lb) && negb (is_some ub)) s in
+   if extensible then
+    let! (ext, s) := r_bit s in
+    if ext then let! (l, s) := r_length_determinant m None None s in octet_rbody m l true s
+    else rest s
+   else rest s).
+Proof. reflexivity. Qed.
+
+Lemma octet_rbody_plain m n frag s body tail :
+  bl body = 8 * n -> n <= ALLOC_LIMIT -> frag = false \/ n < 16384 ->
+  at_src s body tail ->
+  octet_rbody m n frag s = Ok (body, src_adv s (8 * n) tail).
+Proof.
+  intros Hl Ha Hfr Hs. unfold octet_rbody. rewrite alloc_ok by exact Ha. cbn [bind].
+  rewrite (r_bits_ok _ _ _ _ Hs) by lia. cbn [bind]. unfold LENGTH_16K.
+  destruct Hfr as [->|Hn]; [reflexivity|].
+  destruct (N.leb_spec 16384 n); [lia|]. rewrite andb_false_r. reflexivity.
+Qed.
+
+Lemma r_octet_unc m s n body tail : bl body = 8 * n -> n <= ALLOC_LIMIT ->
+  at_src s (x_unconstrained_length_run 8 n body) tail ->
+  (let! (l, s) := r_length_determinant m None None s in octet_rbody m l true s)
+  = Ok (body, src_adv s (bl (x_unconstrained_length_run 8 n body)) tail).
+Proof.
+  intros Hl Ha. unfold x_unconstrained_length_run. cbn [x_frag]. rewrite r_len_unc_eq.
+  destruct (N.ltb_spec n 16384) as [Hsm|Hbg]; intros Hs.
+  - rewrite <- (x_len_first_short n Hsm) in Hs |- *.
+    apply at_src_split in Hs. destruct Hs as [H1 H2].
+    rewrite (r_len_unc_first _ _ _ H1). cbn [bind].
+    unfold len_result, len_frag. rewrite frag_of_short by exact Hsm.
+    rewrite (octet_rbody_plain m n true _ body tail) by (auto; lia).
+    rewrite src_adv_adv, bl_app, Hl. reflexivity.
+  - set (k := N.min (n / 16384) 4) in *. set (cnt := k * 16384) in *.
+    assert (Hc : 16384 <= cnt <= n /\ cnt <= 65536) by lia.
+    change (true :: true :: field 6 k ++ ?a ++ ?b) with ((true :: true :: field 6 k) ++ a ++ b) in *.
+    unfold k in Hs |- *. rewrite <- (x_len_first_big n Hbg) in Hs |- *. fold k in Hs |- *. fold cnt in Hs |- *.
+    apply at_src_split in Hs. destruct Hs as [H1 H2].
+    apply at_src_split in H2. destruct H2 as [H2 H3].
+    rewrite (r_len_unc_first _ _ _ H1). cbn [bind].
+    unfold len_result, len_frag. rewrite frag_of_big by exact Hbg. fold k cnt.
+    unfold octet_rbody. rewrite alloc_ok by (unfold ALLOC_LIMIT; lia). cbn [bind].
+    assert (Hfl : bl (firstn (N.to_nat (cnt * 8)) body) = 8 * cnt) by (rewrite bl_firstn; lia).
+    rewrite (r_bits_ok _ _ _ _ H2) by lia. cbn [bind andb]. unfold LENGTH_16K.
+    destruct (N.leb_spec 16384 cnt); [|lia].
+    rewrite src_adv_adv in H3 |- *. rewrite Hfl in H3.
+    match type of H3 with at_src ?s3' _ _ => set (s3 := s3') in * end.
+    assert (Hfu : (n - cnt) / 16384 < N.of_nat (N.to_nat (n / 16384))) by lia.
+    pose proof (x_frag_len_ge 8 _ _ (skipn (N.to_nat (cnt * 8)) body) Hfu) as Hge.
+    destruct H3 as (E3 & L3 & T3).
+    rewrite (r_octet_loop_spec m _ (N.to_nat (n / 16384)) (n - cnt) (skipn (N.to_nat (cnt * 8)) body) s3 _ tail);
+      [| rewrite bl_skipn; lia | lia | exact Hfu | repeat split; assumption].
+    unfold s3. rewrite src_adv_adv, firstn_skipn, !bl_app. do 3 f_equal. lia.
+Qed.
+
+Lemma octetstring_read m lb ub extensible bytes bs s tail :
+  blen bytes <= ALLOC_LIMIT -> ~ Known_C10_sized_length lb ub (blen bytes) ->
+  x_octetstring lb ub extensible bytes = Some bs -> at_src s bs tail ->
+  r_octetstring m lb ub extensible s = Ok (bits_of_bytes bytes, src_adv s (bl bs) tail).
+Proof.
+  intros Hn Hk Hx Hs. rewrite r_octetstring_eq. unfold x_octetstring in Hx. rewrite x_sized_run_eq in Hx.
+  cbv zeta in *. fold (blen bytes) in Hx. set (n := blen bytes) in *. set (srcb := bits_of_bytes bytes) in *.
+  assert (Hl : bl srcb = 8 * n) by apply bits_len8.
+  assert (Hn63 : n < two63) by (unfold ALLOC_LIMIT, two63 in *; lia).
+  set (lower := opt_or lb 0) in *. set (upper := opt_or ub I64_MAX).
+  assert (Hup : (match ub with Some u => n <=? u | None => true end) = (n <=? upper)).
+  { unfold upper. destruct ub as [u|]; cbn [opt_or]; [reflexivity|].
+    symmetry. apply N.leb_le. unfold I64_MAX. lia. }
+  rewrite Hup in Hx.
+  assert (Hext : forall s' tl, at_src s' (x_unconstrained_length_run 8 n srcb) tl ->
+      (let! (l, s0) := r_length_determinant m None None s' in octet_rbody m l true s0)
+      = Ok (srcb, src_adv s' (bl (x_unconstrained_length_run 8 n srcb)) tl))
+    by (intros; apply r_octet_unc; auto).
+  destruct ((lower <=? n) && (n <=? upper)) eqn:Eroot.
+  2:{ destruct extensible; [|discriminate]. injection Hx as E1. subst bs.
+      apply at_src_cons in Hs. destruct Hs as [H1 H2].
+      rewrite (r_bit_ok _ _ _ H1). cbn [bind].
+      rewrite (Hext _ _ H2), src_adv_adv, bl_cons. reflexivity. }
+  apply andb_true_iff in Eroot. destruct Eroot as [Hlo Hhi]. apply N.leb_le in Hlo, Hhi.
+  assert (Hnk : ~ Known_C10_length_semi_or_large_bound lb ub).
+  { intros K. apply Hk. split; [exact K|]. fold lower upper. lia. }
+  (* strip the extension bit *)
+  assert (Rest : forall s' bs', 
+     match ub with
+     | Some u =>
+        if u =? 0 then Some []
+        else if (lower =? u) && (u <? 65536) then Some srcb
+        else if u <? 65536 then
+          match x_constrained (Z.of_N lower) (Z.of_N u) (Z.of_N n) with
+          | Some lenb => Some (lenb ++ srcb)
+          | None => None
+          end
+        else Some (x_unconstrained_length_run 8 n srcb)
+     | None => Some (x_unconstrained_length_run 8 n srcb)
+     end = Some bs' -> at_src s' bs' tail ->
+     (if upper =? 0 then Ok ([], s')
+      else if is_some lb && opt_n_eqb lb ub && (upper <? LENGTH_64K) then octet_rbody m upper false s'
+      else let! (l, s0) := r_length_determinant m lb ub s' in
+           octet_rbody m l (negb (is_some lb) && negb (is_some ub)) s0)
+     = Ok (srcb, src_adv s' (bl bs') tail)).
+  { intros s' bs' Hx' Hs'.
+    destruct (not_known_cases lb ub Hnk) as [(u & Eu & Hu)|[El Eu]].
+    - subst ub. cbn [opt_or] in upper. subst upper.
+      destruct (N.eqb_spec u 0) as [H0|H0].
+      { injection Hx' as E1. subst bs'. assert (n = 0) by lia.
+        assert (srcb = []) as -> by (destruct srcb; [reflexivity|unfold bl in Hl; cbn [length] in Hl; lia]).
+        destruct Hs' as (E & _). cbn [app] in E. rewrite bl_nil, <- E, src_adv_0. reflexivity. }
+      unfold LENGTH_64K. destruct (N.ltb_spec u 65536); [|lia]. rewrite andb_true_r in *.
+      assert (Efix : is_some lb && opt_n_eqb lb (Some u) = (lower =? u)).
+      { unfold lower. destruct lb as [l|]; cbn [is_some opt_n_eqb opt_or andb]; [reflexivity|].
+        symmetry. apply N.eqb_neq. lia. }
+      rewrite Efix. destruct (N.eqb_spec lower u) as [Hfx|Hfx].
+      + injection Hx' as E1. subst bs'. assert (n = u) as <- by lia.
+        rewrite (octet_rbody_plain m n false s' srcb tail) by auto. rewrite Hl. reflexivity.
+      + assert (Hxl : x_length lb (Some u) n =
+                   x_constrained (Z.of_N lower) (Z.of_N u) (Z.of_N n)) by (apply x_length_constrained; lia).
+        destruct (x_constrained (Z.of_N lower) (Z.of_N u) (Z.of_N n)) as [lenb|] eqn:Ec; [|discriminate].
+        injection Hx' as E1. subst bs'.
+        apply at_src_split in Hs'. destruct Hs' as [H1 H2].
+        rewrite (length_read m lb (Some u) n lenb s' _ Hnk Hxl H1). cbn [bind].
+        change (len_result (Some u) n) with n.
+        rewrite (octet_rbody_plain m n _ _ srcb tail); [|auto|auto|left; destruct lb; reflexivity|exact H2].
+        rewrite src_adv_adv, bl_app, Hl. reflexivity.
+    - subst lb ub. cbn [opt_or is_some andb negb] in *.
+      destruct (N.eqb_spec upper 0) as [H0|H0]; [unfold upper, I64_MAX in H0; cbn in H0; lia|].
+      injection Hx' as E1. subst bs'. apply Hext, Hs'. }
+  destruct extensible.
+  - assert (exists bs', bs = false :: bs' /\
+      match ub with
+      | Some u =>
+        if u =? 0 then Some []
+        else if (lower =? u) && (u <? 65536) then Some srcb
+        else if u <? 65536 then
+          match x_constrained (Z.of_N lower) (Z.of_N u) (Z.of_N n) with
+          | Some lenb => Some (lenb ++ srcb)
+          | None => None
+          end
+        else Some (x_unconstrained_length_run 8 n srcb)
+      | None => Some (x_unconstrained_length_run 8 n srcb)
+      end = Some bs') as (bs' & -> & Hx').
+    { destruct ub as [u|]; [|injection Hx as <-; eauto].
+      destruct (u =? 0); [injection Hx as <-; eauto|].
+      destruct ((lower =? u) && (u <? 65536)); [injection Hx as <-; eauto|].
+      destruct (u <? 65536); [|injection Hx as <-; eauto].
+      destruct (x_constrained (Z.of_N lower) (Z.of_N u) (Z.of_N n)); [injection Hx as <-; eauto|discriminate]. }
+    apply at_src_cons in Hs. destruct Hs as [H1 H2].
+    rewrite (r_bit_ok _ _ _ H1). cbn [bind].
+    rewrite (Rest _ bs' Hx' H2), src_adv_adv, bl_cons. reflexivity.
+  - apply Rest; [|exact Hs]. cbn [app] in Hx.
+    destruct ub as [u|]; [|exact Hx].
+    destruct (u =? 0); [exact Hx|].
+    destruct ((lower =? u) && (u <? 65536)); [exact Hx|].
+    destruct (u <? 65536); [|exact Hx].
+    destruct (x_constrained (Z.of_N lower) (Z.of_N u) (Z.of_N n)); exact Hx.
+Qed.
+
+
+(** ** BIT STRING writer *)
+(* F10-2: 16K bits or more with the unconstrained length form (no usable upper bound below 64K,
+   or out of the extension root): the code does not follow the fragmentation procedure *)
+Definition Known_C10_bitstring_16k (lb ub : option N) (len : N) : Prop :=
+  16384 <= len /\ ~ (exists u, ub = Some u /\ u < 65536 /\ opt_or lb 0 <= len <= u).
+
+Lemma x_run_short unit n body : n < 16384 ->
+  x_unconstrained_length_run unit n body = x_len_short n ++ body.
+Proof.
+  intros H. unfold x_unconstrained_length_run. cbn [x_frag].
+  destruct (N.ltb_spec n 16384); [reflexivity|lia].
+Qed.
+
+Lemma bitstring_write m lb ub extensible bytes offset len :
+  offset + len <= 8 * blen bytes -> len < two63 ->
+  ~ Known_C10_sized_length lb ub len -> ~ Known_C10_bitstring_16k lb ub len ->
+  w_bitstring m lb ub extensible bytes offset len =
+  match x_bitstring lb ub extensible
+          (firstn (N.to_nat len) (skipn (N.to_nat offset) (bits_of_bytes bytes))) with
+  | Some bs => Ok bs | None => Err E_SIZE_RANGE end.
+Proof.
+  intros Hsrc Hn Hk H16. unfold w_bitstring, x_bitstring. rewrite x_sized_run_eq. cbv zeta.
+  set (srcb := bits_of_bytes bytes).
+  assert (Hl : bl srcb = 8 * blen bytes) by apply bits_len8.
+  set (content := firstn (N.to_nat len) (skipn (N.to_nat offset) srcb)).
+  assert (Hcl : N.of_nat (length content) = len).
+  { unfold content. rewrite firstn_length, skipn_length. unfold bl in Hl. lia. }
+  rewrite Hcl. set (n := len) in *.
+  set (lower := opt_or lb 0). set (upper := opt_or ub I64_MAX).
+  assert (Hup : (match ub with Some u => n <=? u | None => true end) = (n <=? upper)).
+  { unfold upper. destruct ub as [u|]; cbn [opt_or]; [reflexivity|].
+    symmetry. apply N.leb_le. unfold I64_MAX. lia. }
+  rewrite Hup.
+  assert (Hsmall : n <= 65536).
+  { destruct (N.le_gt_cases n 65536) as [L|L]; [exact L|]. exfalso. apply H16. split; [lia|].
+    intros (u & _ & Hu & _ & Hle). lia. }
+  unfold MAX_FRAGMENTS_SIZE. destruct (N.ltb_spec 65536 n) as [L|_]; [lia|].
+  replace (N.min 65536 n) with n by lia.
+  assert (Hbody : w_bits_ol srcb offset n = Ok content) by (apply w_bits_ol_ok; lia).
+  rewrite Hbody.
+  assert (Hroot16 : n < lower \/ upper < n -> n < 16384).
+  { intros Ho. destruct (N.lt_ge_cases n 16384) as [?|G]; [assumption|].
+    exfalso. apply H16. split; [exact G|]. intros (u & Eu & _ & Hlo & Hhi). subst ub.
+    fold lower in Hlo. cbn [opt_or] in upper. lia. }
+  assert (Hout : n < lower \/ upper < n ->
+     (let! hb := (if extensible then let! (hb, _) := w_length_determinant m None None n in Ok hb else Err E_SIZE_RANGE) in
+      let! body := Ok content in Ok ((if extensible then [true] else []) ++ hb ++ body)) =
+     (if extensible then Ok (true :: x_unconstrained_length_run 1 n content) else Err E_SIZE_RANGE)).
+  { intros Ho. destruct extensible; [|reflexivity]. specialize (Hroot16 Ho).
+    rewrite w_len_unc. cbn [bind].
+    rewrite x_run_short, x_len_first_short by exact Hroot16. reflexivity. }
+  destruct (N.ltb_spec n lower) as [Hlo|Hlo]; destruct (N.leb_spec lower n) as [Hlo'|Hlo']; try lia; cbn [orb andb].
+  { refine (eq_trans (Hout _) _); [auto|destruct extensible; reflexivity]. }
+  destruct (N.ltb_spec upper n) as [Hhi|Hhi]; destruct (N.leb_spec n upper) as [Hhi'|Hhi']; try lia.
+  { refine (eq_trans (Hout _) _); [auto|destruct extensible; reflexivity]. }
+  set (pre := if extensible then [false] else []).
+  assert (Hnk : ~ Known_C10_length_semi_or_large_bound lb ub).
+  { intros K. apply Hk. split; [exact K|]. fold lower upper. lia. }
+  destruct (not_known_cases lb ub Hnk) as [(u & Eu & Hu)|[El Eu]].
+  - subst ub. cbn [opt_or] in upper. subst upper.
+    unfold LENGTH_64K. destruct (N.ltb_spec u 65536); [|lia]. rewrite andb_true_r.
+    assert (Hx : x_length lb (Some u) n =
+                 x_constrained (Z.of_N lower) (Z.of_N u) (Z.of_N n)) by (apply x_length_constrained; lia).
+    assert (Efix : is_some lb && opt_n_eqb lb (Some u) = is_some lb && (lower =? u)).
+    { unfold lower. destruct lb as [l|]; reflexivity. }
+    rewrite Efix.
+    destruct (N.eqb_spec u 0) as [H0|H0].
+    + assert (n = 0) by lia. assert (content = []) as -> by (destruct content; [reflexivity|cbn [length] in Hcl; lia]).
+      destruct (is_some lb && (lower =? u)); cbn [bind]; [rewrite app_nil_r; reflexivity|].
+      rewrite (length_write m lb (Some u) n [] Hnk).
+      * cbn [bind]. rewrite app_nil_r. reflexivity.
+      * rewrite Hx, x_constrained_N. subst u.
+        destruct (N.leb_spec lower n); [|lia]. destruct (N.leb_spec n 0); [|lia]. cbn [andb].
+        replace (0 - lower) with 0 by lia. reflexivity.
+    + destruct (N.eqb_spec lower u) as [Hfx|Hfx].
+      * assert (is_some lb = true) as -> by (unfold lower in Hfx; destruct lb; [reflexivity|cbn [opt_or] in Hfx; lia]).
+        cbn [andb bind]. reflexivity.
+      * rewrite andb_false_r.
+        destruct (x_constrained (Z.of_N lower) (Z.of_N u) (Z.of_N n)) as [lenb|] eqn:Ec.
+        -- rewrite (length_write m lb (Some u) n lenb Hnk Hx). reflexivity.
+        -- rewrite x_constrained_N in Ec.
+           destruct (N.leb_spec lower n); [|lia]. destruct (N.leb_spec n u); [discriminate|lia].
+  - subst lb ub. cbn [opt_or is_some andb] in *.
+    assert (n < 16384).
+    { destruct (N.lt_ge_cases n 16384) as [?|G]; [assumption|].
+      exfalso; apply H16; split; [exact G|]. intros (u & Eu & _); discriminate. }
+    rewrite w_len_unc. cbn [bind]. rewrite x_run_short, x_len_first_short by assumption. reflexivity.
+Qed.
+
+Lemma bitstring_reject m lb ub bytes offset len :
+  len < opt_or lb 0 \/ opt_or ub I64_MAX < len ->
+  w_bitstring m lb ub false bytes offset len = Err E_SIZE_RANGE.
+Proof.
+  intros H. unfold w_bitstring. cbv zeta.
+  destruct (N.ltb_spec len (opt_or lb 0)); destruct (N.ltb_spec (opt_or ub I64_MAX) len);
+    cbn [orb bind]; try reflexivity; lia.
+Qed.
+
+(* the reference encoding exists, the writer succeeds, and its output is 8 bits shorter
+   (the final zero-length determinant of 11.9.3.8.3 is missing) *)
+Definition bitstring_8_bits_short (m : mode) (lb ub : option N) (bytes : list N) (offset len : N) : bool :=
+  match x_bitstring lb ub false (firstn (N.to_nat len) (skipn (N.to_nat offset) (bits_of_bytes bytes))),
+        w_bitstring m lb ub false bytes offset len with
+  | Some a, Ok b => Nat.eqb (length a) (length b + 8)
+  | _, _ => false
+  end.
+
+Lemma refuted_bitstring_16k :
+  exists m lb ub bytes offset len,
+    Known_C10_bitstring_16k lb ub len /\ offset + len <= 8 * blen bytes /\
+    bitstring_8_bits_short m lb ub bytes offset len = true.
+Proof.
+  exists dev_mode, None, None, (repeat 0 2048), 0, 16384.
+  split; [split; [lia|intros (u & Eu & _); discriminate]|].
+  split; [vm_compute; discriminate|]. vm_compute. reflexivity.
+Qed.
+
+
+(** ** no writer panics, for any arguments, in either profile *)
+Definition np {A} (r : res A) : Prop := is_panic r = false.
+
+Lemma np_bind {A B} (r : res A) (f : A -> res B) :
+  np r -> (forall a, r = Ok a -> np (f a)) -> np (bind r f).
+Proof. unfold np. destruct r; cbn; auto. Qed.
+
+Lemma np_bind' {A B} (r : res A) (f : A -> res B) :
+  np r -> (forall a, np (f a)) -> np (bind r f).
+Proof. intros H1 H2. apply np_bind; auto. Qed.
+
+Lemma w_bits_ol_np srcb off len : np (w_bits_ol srcb off len).
+Proof. unfold w_bits_ol. destruct (_ <? _); reflexivity. Qed.
+
+Lemma bounded_cases lb ub : (lb = None /\ ub = None) \/ nn_bounded lb ub.
+Proof. destruct lb; [right; left; discriminate|]. destruct ub; [right; right; discriminate|auto]. Qed.
+
+Lemma w_nnbi_np m lb ub v : np (w_nnbi m lb ub v).
+Proof.
+  destruct (bounded_cases lb ub) as [[-> ->]|Hb]; [reflexivity|].
+  set (lower := opt_or lb 0). set (upper := opt_or ub I64_MAX).
+  destruct (N.lt_ge_cases v lower) as [H|H]; [rewrite w_nnbi_reject by (auto; left; exact H); reflexivity|].
+  destruct (N.lt_ge_cases upper v) as [H'|H']; [rewrite w_nnbi_reject by (auto; right; exact H'); reflexivity|].
+  assert (E : w_nnbi m lb ub v =
+    (if (v <? lower) || (upper <? v) then Err E_VALUE_RANGE else
+     let! range := usub m upper lower in
+     let offset_bits := lz64 range in
+     let! x := usub m v lower in
+     Ok (skipn (N.to_nat offset_bits) (bits64 x)))).
+  { destruct lb, ub; try reflexivity. destruct Hb; congruence. }
+  rewrite E. destruct (N.ltb_spec v lower); [lia|]. destruct (N.ltb_spec upper v); [lia|].
+  cbn [orb]. rewrite !usub_ok by lia. reflexivity.
+Qed.
+
+Lemma w_length_np m lb ub v : np (w_length_determinant m lb ub v).
+Proof.
+  unfold w_length_determinant.
+  repeat match goal with
+  | |- np (if ?c then _ else _) => destruct c
+  | |- np (bind _ _) => apply np_bind'; [apply w_nnbi_np|intros ?]
+  | |- np (Ok _) => reflexivity
+  | |- np (Err _) => reflexivity
+  end.
+Qed.
+
+(* the fragment size reported by the length-determinant writer never exceeds the count *)
+Lemma w_length_frag m lb ub v hb fs : w_length_determinant m lb ub v = Ok (hb, fs) ->
+  fs = None \/ (16384 <= v /\ fs = Some (N.min (v / 16384) 4 * 16384)).
+Proof.
+  unfold w_length_determinant, LENGTH_127, LENGTH_16K, MAX_FRAGMENTS.
+  repeat match goal with
+  | |- (if ?c then _ else _) = _ -> _ => destruct c eqn:?
+  | |- bind ?r _ = _ -> _ => destruct r; cbn [bind]
+  end; intros H; try discriminate; injection H as _ <-; auto.
+  right. split; [lia|reflexivity].
+Qed.
+
+Lemma w_twos_np m k v : np (w_2s_compliment m k v).
+Proof.
+  unfold w_2s_compliment. destruct (_ || _); [reflexivity|]. destruct (negb _); [reflexivity|]. apply w_bits_ol_np.
+Qed.
+
+Lemma w_constrained_np m lb ub v : np (w_constrained m lb ub v).
+Proof.
+  unfold w_constrained. destruct (_ || _)%bool; [reflexivity|]. destruct (0 <? _); [apply w_nnbi_np|reflexivity].
+Qed.
+
+Lemma w_normally_small_np m v : np (w_normally_small m v).
+Proof.
+  unfold w_normally_small. destruct (_ <=? _); (apply np_bind'; [apply w_nnbi_np|reflexivity]).
+Qed.
+
+Lemma w_semi_constrained_np m lb v : np (w_semi_constrained m lb v).
+Proof. unfold w_semi_constrained. destruct (_ <? _)%Z; [reflexivity|apply w_nnbi_np]. Qed.
+
+Lemma w_unconstrained_np m v : np (w_unconstrained m v).
+Proof.
+  unfold w_unconstrained. apply np_bind'; [apply w_length_np|intros [lb_ ?]].
+  apply np_bind'; [apply w_twos_np|reflexivity].
+Qed.
+
+Lemma w_index_np m std ext i : np (w_enumeration_index m std ext i).
+Proof.
+  unfold w_enumeration_index. destruct (N.leb_spec std i) as [H|H].
+  - destruct ext; [|reflexivity]. rewrite usub_ok by exact H. cbn [bind].
+    apply np_bind'; [apply w_normally_small_np|reflexivity].
+  - rewrite usub_ok by lia. cbn [bind]. apply np_bind'; [apply w_nnbi_np|reflexivity].
+Qed.
+
+Lemma octet_loop_np m srcb length : forall fuel written,
+  (length - written) / 16384 < N.of_nat fuel -> np (w_octet_frag_loop fuel m srcb length written).
+Proof.
+  induction fuel as [|f IH]; intros written Hf; [lia|].
+  cbn [w_octet_frag_loop]. rewrite w_len_unc. cbn [bind].
+  apply np_bind'; [apply w_bits_ol_np|intros body]. unfold MIN_FRAGMENT_SIZE.
+  destruct (N.ltb_spec (opt_or (frag_of (length - written)) (length - written)) 16384) as [Hs|Hb]; [reflexivity|].
+  apply np_bind'; [|reflexivity]. apply IH.
+  unfold frag_of in *. destruct (N.ltb_spec (length - written) 16384); cbn [opt_or] in *; lia.
+Qed.
+
+Lemma octet_cont_np m pre srcb n hb fs :
+  fs = None \/ (16384 <= n /\ fs = Some (N.min (n / 16384) 4 * 16384)) ->
+  np (octet_cont m pre srcb n hb fs).
+Proof.
+  intros [->|[Hn ->]]; unfold octet_cont; cbn [opt_or].
+  - rewrite N.ltb_irrefl. apply np_bind'; [apply w_bits_ol_np|reflexivity].
+  - destruct (N.ltb_spec n (N.min (n / 16384) 4 * 16384)); [lia|].
+    apply np_bind'; [apply w_bits_ol_np|intros body].
+    apply np_bind'; [|reflexivity]. apply octet_loop_np. unfold MIN_FRAGMENT_SIZE. lia.
+Qed.
+
+Lemma w_octetstring_np m lb ub extensible bytes : np (w_octetstring m lb ub extensible bytes).
+Proof.
+  rewrite w_octetstring_eq. cbv zeta.
+  assert (C : forall pre lb' ub',
+    np (let! (hb, fs) := w_length_determinant m lb' ub' (blen bytes) in
+        octet_cont m pre (bits_of_bytes bytes) (blen bytes) hb fs)).
+  { intros pre lb' ub'. apply np_bind; [apply w_length_np|]. intros [hb fs] E.
+    apply octet_cont_np. eapply w_length_frag, E. }
+  destruct (_ || _).
+  - destruct extensible; [apply C|reflexivity].
+  - destruct (_ =? 0); [reflexivity|].
+    destruct (_ && _); [apply octet_cont_np; auto|apply C].
+Qed.
+
+Lemma bit_loop_np m srcb offset length : forall fuel written,
+  (length - written) / 16384 < N.of_nat fuel -> np (w_bit_frag_loop fuel m srcb offset length written).
+Proof.
+  induction fuel as [|f IH]; intros written Hf; [lia|].
+  cbn [w_bit_frag_loop]. unfold MAX_FRAGMENTS_SIZE, MIN_FRAGMENT_SIZE.
+  set (fs0 := N.min (length - written) 65536). set (fsz := fs0 - fs0 mod 16384).
+  apply np_bind'; [apply w_length_np|intros [hb ?]].
+  apply np_bind'; [apply w_bits_ol_np|intros body].
+  destruct (N.ltb_spec fsz 16384) as [Hs|Hb]; [reflexivity|].
+  apply np_bind'; [|reflexivity]. apply IH. lia.
+Qed.
+
+Lemma w_bitstring_np m lb ub extensible bytes offset len : np (w_bitstring m lb ub extensible bytes offset len).
+Proof.
+  unfold w_bitstring. cbv zeta. apply np_bind'.
+  - destruct (_ || _).
+    + destruct extensible; [|reflexivity]. apply np_bind'; [apply w_length_np|intros [? ?]; reflexivity].
+    + destruct (_ && _); [reflexivity|]. apply np_bind'; [apply w_length_np|intros [? ?]; reflexivity].
+  - intros hb. apply np_bind'; [apply w_bits_ol_np|intros body].
+    destruct (_ <? _); [|reflexivity]. apply np_bind'; [|reflexivity].
+    apply bit_loop_np. unfold MIN_FRAGMENT_SIZE, MAX_FRAGMENTS_SIZE. lia.
+Qed.
+
+(** ** readers on arbitrary sources *)
+Lemma r_bit_np s : np (r_bit s).
+Proof. unfold r_bit. destruct (_ <? _); [|reflexivity]. destruct (s_rest s); reflexivity. Qed.
+
+Lemma r_bits_into_np s d o n : np (r_bits_into s d o n).
+Proof. unfold r_bits_into. repeat (destruct (_ <? _); [reflexivity|]). reflexivity. Qed.
+
+Lemma r_bits_into_len s d o n bs s' : r_bits_into s d o n = Ok (bs, s') -> bl bs <= n.
+Proof.
+  unfold r_bits_into. repeat (destruct (_ <? _); [discriminate|]). intros H. injection H as <- _.
+  unfold bl. rewrite firstn_length. lia.
+Qed.
+
+Lemma r_len_unc_np s : np (r_length_determinant_unc s).
+Proof.
+  unfold r_length_determinant_unc.
+  apply np_bind'; [apply r_bit_np|intros [b1 s1]]. destruct (negb b1).
+  - apply np_bind'; [apply r_bits_into_np|intros [? ?]; reflexivity].
+  - apply np_bind'; [apply r_bit_np|intros [b2 s2]]. destruct (negb b2);
+      (apply np_bind'; [apply r_bits_into_np|intros [? ?]; reflexivity]).
+Qed.
+
+Lemma r_nnbi_unbounded_np m s : np (r_nnbi m None None s).
+Proof.
+  cbn [r_nnbi]. apply np_bind'; [apply r_len_unc_np|intros [l s1]].
+  destruct (_ <=? _); [|reflexivity]. apply np_bind'; [apply r_bits_into_np|intros [? ?]; reflexivity].
+Qed.
+
+(* bounded form: the sum lower + field cannot overflow when 2 * upper < 2^64 + lower,
+   in particular for lower = 0 *)
+Lemma r_nnbi_bounded_np m lb ub s : nn_bounded lb ub ->
+  opt_or lb 0 + 2 ^ N.size (opt_or ub I64_MAX - opt_or lb 0) <= two64 ->
+  np (r_nnbi m lb ub s).
+Proof.
+  intros Hb Hr.
+  assert (E : r_nnbi m lb ub s =
+    (let lower := opt_or lb 0 in let upper := opt_or ub I64_MAX in
+      let range := upper - lower in
+      let offset_bits := lz64 range in
+      let! (bs, s) := r_bits_into s 64 offset_bits (64 - offset_bits) in
+      let! v := uadd m lower (val_of_bits bs) in
+      Ok (v, s))).
+  { destruct lb, ub; try reflexivity. destruct Hb; congruence. }
+  rewrite E. cbv zeta. clear E.
+  set (lower := opt_or lb 0) in *. set (upper := opt_or ub I64_MAX) in *.
+  apply np_bind; [apply r_bits_into_np|intros [bs s1] Er].
+  apply r_bits_into_len in Er. pose proof (vob_lt bs) as Hv.
+  assert (2 ^ bl bs <= 2 ^ N.size (upper - lower)).
+  { apply N.pow_le_mono_r; [lia|]. unfold lz64 in Er. lia. }
+  rewrite uadd_ok by lia. reflexivity.
+Qed.
+
+Lemma r_constrained_np m lb ub s : np (r_constrained m lb ub s).
+Proof.
+  unfold r_constrained. destruct (0 <? _); [|reflexivity].
+  apply np_bind'; [|intros [? ?]; reflexivity].
+  apply r_nnbi_bounded_np; [right; discriminate|]. cbn [opt_or]. rewrite N.sub_0_r, N.add_0_l.
+  change two64 with (2 ^ 64). apply N.pow_le_mono_r; [lia|]. apply size_le64, u64_of_i64_lt.
+Qed.
+
+Lemma r_normally_small_np m s : np (r_normally_small m s).
+Proof.
+  unfold r_normally_small. apply np_bind'; [apply r_bit_np|intros [big s1]].
+  destruct big; [apply r_nnbi_unbounded_np|].
+  apply r_nnbi_bounded_np; [right; discriminate|]. vm_compute. discriminate.
+Qed.
+
+Lemma r_semi_constrained_np m lb s : np (r_semi_constrained m lb s).
+Proof.
+  unfold r_semi_constrained. apply np_bind'; [apply r_nnbi_unbounded_np|intros [? ?]; reflexivity].
+Qed.
+
+Lemma r_twos_np k s : np (r_2s_compliment k s).
+Proof.
+  unfold r_2s_compliment. destruct (_ || _); [reflexivity|].
+  apply np_bind'; [apply r_bits_into_np|intros [? ?]; reflexivity].
+Qed.
+
+Lemma r_unconstrained_np m s : np (r_unconstrained m s).
+Proof.
+  unfold r_unconstrained. rewrite r_len_unc_eq.
+  apply np_bind'; [apply r_len_unc_np|intros [? ?]; apply r_twos_np].
+Qed.
+
+Lemma r_length_np m lb ub s : opt_or lb 0 < two64 -> ~ Known_C10_length_semi_or_large_bound lb ub ->
+  np (r_length_determinant m lb ub s).
+Proof.
+  intros Hl Hk. destruct (not_known_cases lb ub Hk) as [(u & -> & Hu)|[-> ->]].
+  - rewrite r_len_constrained by exact Hu. apply r_nnbi_bounded_np; [right; discriminate|].
+    cbn [opt_or]. set (l := opt_or lb 0) in *.
+    destruct (N.le_gt_cases l u) as [Hle|Hgt].
+    + assert (2 ^ N.size (u - l) <= 2 ^ 16).
+      { apply N.pow_le_mono_r; [lia|]. apply size_le_of_lt. change (2 ^ 16) with 65536. lia. }
+      change (2 ^ 16) with 65536 in *. unfold two64. lia.
+    + replace (u - l) with 0 by lia. cbn [N.size N.pow]. lia.
+  - rewrite r_len_unc_eq. apply r_len_unc_np.
+Qed.
+
+(* the index reader on an arbitrary source, extensible or not: the extension branch adds
+   std_variants with a checked addition (an error, not a panic or a wrapped index) *)
+Lemma r_index_np m std ext s : std < two64 -> np (r_enumeration_index m std ext s).
+Proof.
+  intros Hs. unfold r_enumeration_index.
+  assert (Small : forall s1,
+    np (if std =? 0 then Err E_INVALID_CHOICE else r_nnbi m None (Some (std - 1)) s1)).
+  { intros s1. destruct (std =? 0); [reflexivity|].
+    apply r_nnbi_bounded_np; [right; discriminate|]. cbn [opt_or]. rewrite N.sub_0_r, N.add_0_l.
+    change two64 with (2 ^ 64). apply N.pow_le_mono_r; [lia|]. apply size_le64. lia. }
+  destruct ext; [|apply Small].
+  apply np_bind'; [apply r_bit_np|intros [e s1]]. destruct e; [|apply Small].
+  apply np_bind'; [apply r_normally_small_np|intros [n s2]].
+  destruct (_ <? _); reflexivity.
+Qed.
+
+(* the crafted input that used to overflow `index + std_variants`: extension bit, a "big"
+   normally small number of 8 octets FF..FF; now an error in both profiles *)
+Lemma index_read_overflow_is_error :
+  let bytes := [194; 63; 255; 255; 255; 255; 255; 255; 255; 192] in
+  forall m, r_enumeration_index m 3 true (src_of_bytes bytes (8 * blen bytes)) = Err E_INVALID_CHOICE.
+Proof. intros bytes [[|] [|]]; vm_compute; reflexivity. Qed.
+
+Lemma refuted_nnbi_read_overflow :
+  exists lb ub bytes, lb < ub /\ ub < two64 /\
+    r_nnbi dev_mode (Some lb) (Some ub) (src_of_bytes bytes (8 * blen bytes)) = Panic P_ARITH.
+Proof.
+  exists 4611686018427387904, 18446744073709551615, [255; 255; 255; 255; 255; 255; 255; 255].
+  split; [lia|]. split; [unfold two64; lia|]. vm_compute. reflexivity.
+Qed.
+
+
+(** ** BIT STRING reader *)
+Definition bit_rbody (m : mode) (bit_len : N) (frag : bool) (s : src) : res (bits * N * N * src) :=
+  let byte_len := (bit_len + 7) / 8 in
+  let! _ := alloc byte_len in
+  let! (bs, s) := r_bits_into s (8 * byte_len) 0 bit_len in
+  if frag && (LENGTH_16K <=? bit_len) then
+    r_bit_frag_loop (S (N.to_nat (s_len s - s_pos s))) m s bs bit_len byte_len byte_len
+  else Ok (bs, bit_len, byte_len, s).
+
+Lemma r_bitstring_eq m lb ub extensible s :
+  r_bitstring m lb ub extensible s =
+  (let upper := opt_or ub I64_MAX in
+   let rest (s : src) :=
+    if is_some lb && opt_n_eqb lb ub && (upper <? LENGTH_64K) then bit_rbody m upper false s
+    else let! (l, s) := r_length_determinant m lb ub s in bit_rbody m l (negb (is_some lb) && negb (is_some ub)) s in
+   if extensible then
+    let! (ext, s) := r_bit s in
+    if ext then let! (l, s) := r_length_determinant m None None s in bit_rbody m l true s
+    else rest s
+   else rest s).
+Proof. reflexivity. Qed.
+
+Lemma bit_rbody_plain m n frag s body tail :
+  bl body = n -> n <= ALLOC_LIMIT -> frag = false \/ n < 16384 ->
+  at_src s body tail ->
+  bit_rbody m n frag s = Ok (body, n, (n + 7) / 8, src_adv s n tail).
+Proof.
+  intros Hl Ha Hfr Hs. unfold bit_rbody. cbv zeta.
+  rewrite alloc_ok by (unfold ALLOC_LIMIT in *; lia). cbn [bind].
+  rewrite (r_bits_into_ok _ _ _ _ _ _ Hs) by lia. cbn [bind]. unfold LENGTH_16K.
+  destruct Hfr as [->|Hn]; [reflexivity|].
+  destruct (N.leb_spec 16384 n); [lia|]. rewrite andb_false_r. reflexivity.
+Qed.
+
+Lemma bitstring_read m lb ub extensible content bs s tail :
+  bl content <= ALLOC_LIMIT ->
+  ~ Known_C10_sized_length lb ub (bl content) -> ~ Known_C10_bitstring_16k lb ub (bl content) ->
+  x_bitstring lb ub extensible content = Some bs -> at_src s bs tail ->
+  r_bitstring m lb ub extensible s =
+  Ok (content, bl content, (bl content + 7) / 8, src_adv s (bl bs) tail).
+Proof.
+  intros Hn Hk H16 Hx Hs. rewrite r_bitstring_eq. unfold x_bitstring in Hx. rewrite x_sized_run_eq in Hx.
+  cbv zeta in *. fold (bl content) in Hx. set (n := bl content) in *.
+  assert (Hn63 : n < two63) by (unfold ALLOC_LIMIT, two63 in *; lia).
+  set (lower := opt_or lb 0) in *. set (upper := opt_or ub I64_MAX).
+  assert (Hup : (match ub with Some u => n <=? u | None => true end) = (n <=? upper)).
+  { unfold upper. destruct ub as [u|]; cbn [opt_or]; [reflexivity|].
+    symmetry. apply N.leb_le. unfold I64_MAX. lia. }
+  rewrite Hup in Hx.
+  assert (Hroot16 : n < lower \/ upper < n -> n < 16384).
+  { intros Ho. destruct (N.lt_ge_cases n 16384) as [?|G]; [assumption|].
+    exfalso. apply H16. split; [exact G|]. intros (u & Eu & _ & Hlo & Hhi). subst ub.
+    fold lower in Hlo. cbn [opt_or] in upper. lia. }
+  assert (Hext : forall s' tl, n < 16384 -> at_src s' (x_unconstrained_length_run 1 n content) tl ->
+      (let! (l, s0) := r_length_determinant m None None s' in bit_rbody m l true s0)
+      = Ok (content, n, (n + 7) / 8, src_adv s' (bl (x_unconstrained_length_run 1 n content)) tl)).
+  { intros s' tl Hsm. rewrite x_run_short, <- x_len_first_short by exact Hsm. intros H'.
+    apply at_src_split in H'. destruct H' as [H1 H2].
+    rewrite r_len_unc_eq, (r_len_unc_first _ _ _ H1). cbn [bind].
+    unfold len_result, len_frag. rewrite frag_of_short by exact Hsm.
+    rewrite (bit_rbody_plain m n true _ content tl) by (auto; lia).
+    rewrite src_adv_adv, bl_app. reflexivity. }
+  destruct ((lower <=? n) && (n <=? upper)) eqn:Eroot.
+  2:{ apply andb_false_iff in Eroot. rewrite !N.leb_gt in Eroot.
+      destruct extensible; [|discriminate]. injection Hx as E1. subst bs.
+      apply at_src_cons in Hs. destruct Hs as [H1 H2].
+      rewrite (r_bit_ok _ _ _ H1). cbn [bind].
+      rewrite (Hext _ _ (Hroot16 Eroot) H2), src_adv_adv, bl_cons. reflexivity. }
+  apply andb_true_iff in Eroot. destruct Eroot as [Hlo Hhi]. apply N.leb_le in Hlo, Hhi.
+  assert (Hnk : ~ Known_C10_length_semi_or_large_bound lb ub).
+  { intros K. apply Hk. split; [exact K|]. fold lower upper. lia. }
+  assert (Rest : forall s' bs',
+     match ub with
+     | Some u =>
+        if u =? 0 then Some []
+        else if (lower =? u) && (u <? 65536) then Some content
+        else if u <? 65536 then
+          match x_constrained (Z.of_N lower) (Z.of_N u) (Z.of_N n) with
+          | Some lenb => Some (lenb ++ content)
+          | None => None
+          end
+        else Some (x_unconstrained_length_run 1 n content)
+     | None => Some (x_unconstrained_length_run 1 n content)
+     end = Some bs' -> at_src s' bs' tail ->
+     (if is_some lb && opt_n_eqb lb ub && (upper <? LENGTH_64K) then bit_rbody m upper false s'
+      else let! (l, s0) := r_length_determinant m lb ub s' in
+           bit_rbody m l (negb (is_some lb) && negb (is_some ub)) s0)
+     = Ok (content, n, (n + 7) / 8, src_adv s' (bl bs') tail)).
+  { intros s' bs' Hx' Hs'.
+    destruct (not_known_cases lb ub Hnk) as [(u & Eu & Hu)|[El Eu]].
+    - subst ub. cbn [opt_or] in upper. subst upper.
+      unfold LENGTH_64K. destruct (N.ltb_spec u 65536); [|lia]. rewrite andb_true_r in *.
+      assert (Hxl : x_length lb (Some u) n =
+                   x_constrained (Z.of_N lower) (Z.of_N u) (Z.of_N n)) by (apply x_length_constrained; lia).
+      assert (Fix : forall s1, n = u -> at_src s1 content tail ->
+                bit_rbody m u false s1 = Ok (content, n, (n + 7) / 8, src_adv s1 (bl content) tail)).
+      { intros s1 <- H1. apply bit_rbody_plain; auto. }
+      assert (Con : forall lenb, x_constrained (Z.of_N lower) (Z.of_N u) (Z.of_N n) = Some lenb ->
+                at_src s' (lenb ++ content) tail ->
+                (let! (l, s0) := r_length_determinant m lb (Some u) s' in
+                 bit_rbody m l (negb (is_some lb) && negb (is_some (Some u))) s0)
+                = Ok (content, n, (n + 7) / 8, src_adv s' (bl (lenb ++ content)) tail)).
+      { intros lenb Ec H'. rewrite <- Hxl in Ec.
+        apply at_src_split in H'. destruct H' as [H1 H2].
+        rewrite (length_read m lb (Some u) n lenb s' _ Hnk Ec H1). cbn [bind].
+        change (len_result (Some u) n) with n.
+        rewrite (bit_rbody_plain m n _ _ content tail); [|auto|auto|left; destruct lb; reflexivity|exact H2].
+        rewrite src_adv_adv, bl_app. reflexivity. }
+      assert (Efix : is_some lb && opt_n_eqb lb (Some u) = is_some lb && (lower =? u)).
+      { unfold lower. destruct lb as [l|]; reflexivity. }
+      rewrite Efix.
+      destruct (N.eqb_spec u 0) as [H0|H0].
+      + injection Hx' as E1. subst bs'. assert (Hn0 : n = 0) by lia.
+        assert (content = []) as Ec0 by (destruct content; [reflexivity|unfold n, bl in Hn0; cbn [length] in Hn0; lia]).
+        destruct (is_some lb && (lower =? u)).
+        * rewrite Fix; [rewrite Ec0; reflexivity|lia|rewrite Ec0; exact Hs'].
+        * rewrite (Con []); [rewrite Ec0; reflexivity| |rewrite Ec0; exact Hs'].
+          rewrite x_constrained_N. destruct (N.leb_spec lower n); [|lia]. destruct (N.leb_spec n u); [|lia].
+          cbn [andb]. replace (u - lower) with 0 by lia. reflexivity.
+      + destruct (N.eqb_spec lower u) as [Hfx|Hfx].
+        * assert (is_some lb = true) as -> by (unfold lower in Hfx; destruct lb; [reflexivity|cbn [opt_or] in Hfx; lia]).
+          cbn [andb] in *. injection Hx' as E1. subst bs'. apply Fix; [lia|exact Hs'].
+        * rewrite andb_false_r. cbn [andb] in Hx'.
+          destruct (x_constrained (Z.of_N lower) (Z.of_N u) (Z.of_N n)) as [lenb|] eqn:Ec; [|discriminate].
+          injection Hx' as E1. subst bs'. apply Con; [reflexivity|exact Hs'].
+    - subst lb ub. cbn [opt_or is_some andb negb] in *.
+      injection Hx' as E1. subst bs'. apply Hext; [|exact Hs'].
+      destruct (N.lt_ge_cases n 16384) as [?|G]; [assumption|].
+      exfalso; apply H16; split; [exact G|]. intros (u & Eu & _); discriminate. }
+  destruct extensible.
+  - assert (exists bs', bs = false :: bs' /\
+      match ub with
+      | Some u =>
+        if u =? 0 then Some []
+        else if (lower =? u) && (u <? 65536) then Some content
+        else if u <? 65536 then
+          match x_constrained (Z.of_N lower) (Z.of_N u) (Z.of_N n) with
+          | Some lenb => Some (lenb ++ content)
+          | None => None
+          end
+        else Some (x_unconstrained_length_run 1 n content)
+      | None => Some (x_unconstrained_length_run 1 n content)
+      end = Some bs') as (bs' & -> & Hx').
+    { destruct ub as [u|]; [|injection Hx as <-; eauto].
+      destruct (u =? 0); [injection Hx as <-; eauto|].
+      destruct ((lower =? u) && (u <? 65536)); [injection Hx as <-; eauto|].
+      destruct (u <? 65536); [|injection Hx as <-; eauto].
+      destruct (x_constrained (Z.of_N lower) (Z.of_N u) (Z.of_N n)); [injection Hx as <-; eauto|discriminate]. }
+    apply at_src_cons in Hs. destruct Hs as [H1 H2].
+    rewrite (r_bit_ok _ _ _ H1). cbn [bind].
+    rewrite (Rest _ bs' Hx' H2), src_adv_adv, bl_cons. reflexivity.
+  - apply Rest; [|exact Hs]. cbn [app] in Hx.
+    destruct ub as [u|]; [|exact Hx].
+    destruct (u =? 0); [exact Hx|].
+    destruct ((lower =? u) && (u <? 65536)); [exact Hx|].
+    destruct (u <? 65536); [|exact Hx].
+    destruct (x_constrained (Z.of_N lower) (Z.of_N u) (Z.of_N n)); exact Hx.
+Qed.
+
+(** ** packaged statements *)
+Lemma length_fragment v :
+  len_frag None v = (if v <? 16384 then None else Some (N.min (v / 16384) 4 * 16384))
+  /\ forall u, len_frag (Some u) v = None.
+Proof. split; reflexivity. Qed.
+
+Lemma twos_octets_eq o v : twos_bits (8 * o) v = twos_field o v.
+Proof. reflexivity. Qed.
+
+Lemma no_panic_writers m :
+  (forall lb ub v, np (w_nnbi m lb ub v)) /\
+  (forall lb ub v, np (w_length_determinant m lb ub v)) /\
+  (forall k v, np (w_2s_compliment m k v)) /\
+  (forall lb ub v, np (w_constrained m lb ub v)) /\
+  (forall v, np (w_normally_small m v)) /\
+  (forall lb v, np (w_semi_constrained m lb v)) /\
+  (forall v, np (w_unconstrained m v)) /\
+  (forall std ext i, np (w_enumeration_index m std ext i)) /\
+  (forall lb ub ext bytes, np (w_octetstring m lb ub ext bytes)) /\
+  (forall lb ub ext bytes offset len, np (w_bitstring m lb ub ext bytes offset len)).
+Proof.
+  repeat split; intros.
+  - apply w_nnbi_np. - apply w_length_np. - apply w_twos_np. - apply w_constrained_np.
+  - apply w_normally_small_np. - apply w_semi_constrained_np. - apply w_unconstrained_np.
+  - apply w_index_np. - apply w_octetstring_np. - apply w_bitstring_np.
+Qed.
+
+Lemma no_panic_readers m s :
+  np (r_nnbi m None None s) /\
+  (forall lb ub, nn_bounded lb ub ->
+     opt_or lb 0 + 2 ^ N.size (opt_or ub I64_MAX - opt_or lb 0) <= two64 -> np (r_nnbi m lb ub s)) /\
+  (forall lb ub, opt_or lb 0 < two64 -> ~ Known_C10_length_semi_or_large_bound lb ub ->
+     np (r_length_determinant m lb ub s)) /\
+  (forall k, np (r_2s_compliment k s)) /\
+  (forall lb ub, np (r_constrained m lb ub s)) /\
+  np (r_normally_small m s) /\
+  (forall lb, np (r_semi_constrained m lb s)) /\
+  np (r_unconstrained m s) /\
+  (forall std ext, std < two64 -> np (r_enumeration_index m std ext s)).
+Proof.
+  repeat split; intros.
+  - apply r_nnbi_unbounded_np. - apply r_nnbi_bounded_np; assumption. - apply r_length_np; assumption.
+  - apply r_twos_np. - apply r_constrained_np. - apply r_normally_small_np.
+  - apply r_semi_constrained_np. - apply r_unconstrained_np. - apply r_index_np; assumption.
+Qed.
+
+
+(** ** OCTET STRING / BIT STRING readers on arbitrary sources *)
+(* bits still readable under the declared length *)
+Definition rem (s : src) : N := s_len s - s_pos s.
+
+Lemma r_bit_rem s b s' : r_bit s = Ok (b, s') -> rem s' + 1 = rem s.
+Proof.
+  unfold r_bit, rem. destruct (N.ltb_spec (s_pos s) (s_len s)) as [L|L]; [|discriminate].
+  destruct (s_rest s); [discriminate|]. intros E. injection E as _ <-. unfold src_adv. cbn [s_len s_pos]. lia.
+Qed.
+
+Lemma r_bits_into_rem s d o n bs s' : r_bits_into s d o n = Ok (bs, s') -> rem s' + n = rem s.
+Proof.
+  unfold r_bits_into, rem. destruct (N.ltb_spec (s_len s - s_pos s) n) as [L|L]; [discriminate|].
+  repeat (destruct (_ <? _); [discriminate|]). intros E. injection E as _ <-.
+  unfold src_adv. cbn [s_len s_pos]. lia.
+Qed.
+
+Lemma r_len_unc_bound s l s' : r_length_determinant_unc s = Ok (l, s') ->
+  l <= 65536 /\ rem s' < rem s.
+Proof.
+  unfold r_length_determinant_unc.
+  destruct (r_bit s) as [[b1 s1]| |] eqn:E1; cbn [bind]; try discriminate.
+  apply r_bit_rem in E1. destruct (negb b1).
+  - destruct (r_bits_into s1 64 57 7) as [[bs s2]| |] eqn:E2; cbn [bind]; try discriminate.
+    intros H. injection H as <- <-. pose proof (r_bits_into_len _ _ _ _ _ _ E2) as Hl.
+    apply r_bits_into_rem in E2. pose proof (vob_lt bs) as Hv.
+    assert (2 ^ bl bs <= 2 ^ 7) by (apply N.pow_le_mono_r; lia). change (2 ^ 7) with 128 in *. lia.
+  - destruct (r_bit s1) as [[b2 s2]| |] eqn:E2; cbn [bind]; try discriminate.
+    apply r_bit_rem in E2. destruct (negb b2).
+    + destruct (r_bits_into s2 64 50 14) as [[bs s3]| |] eqn:E3; cbn [bind]; try discriminate.
+      intros H. injection H as <- <-. pose proof (r_bits_into_len _ _ _ _ _ _ E3) as Hl.
+      apply r_bits_into_rem in E3. pose proof (vob_lt bs) as Hv.
+      assert (2 ^ bl bs <= 2 ^ 14) by (apply N.pow_le_mono_r; lia). change (2 ^ 14) with 16384 in *. lia.
+    + destruct (r_bits_into s2 8 2 6) as [[bs s3]| |] eqn:E3; cbn [bind]; try discriminate.
+      intros H.
+      assert (l = LENGTH_16K * N.min (val_of_bits bs) MAX_FRAGMENTS /\ s' = s3) as [-> ->] by (split; congruence).
+      apply r_bits_into_rem in E3. unfold LENGTH_16K, MAX_FRAGMENTS. lia.
+Qed.
+
+Lemma r_octet_loop_np m : forall fuel s acc, rem s < N.of_nat fuel -> np (r_octet_frag_loop fuel m s acc).
+Proof.
+  induction fuel as [|f IH]; intros s acc Hf; [lia|].
+  cbn [r_octet_frag_loop]. rewrite r_len_unc_eq.
+  apply np_bind; [apply r_len_unc_np|intros [ext s1] E1].
+  apply r_len_unc_bound in E1. destruct E1 as [Hl Hr].
+  rewrite alloc_ok by (unfold ALLOC_LIMIT; lia). cbn [bind].
+  apply np_bind; [apply r_bits_into_np|intros [bs s2] E2]. apply r_bits_into_rem in E2.
+  destruct (_ <? _); [reflexivity|]. apply IH. lia.
+Qed.
+
+Lemma octet_rbody_np m n frag s : n <= ALLOC_LIMIT -> np (octet_rbody m n frag s).
+Proof.
+  intros Hn. unfold octet_rbody. rewrite alloc_ok by exact Hn. cbn [bind].
+  apply np_bind'; [apply r_bits_into_np|intros [bs s1]].
+  destruct (_ && _); [|reflexivity]. apply r_octet_loop_np. unfold rem. lia.
+Qed.
+
+(* the count decoded by the length-determinant reader is small outside F10-1 *)
+Lemma r_length_bound m lb ub s l s' :
+  ~ Known_C10_length_semi_or_large_bound lb ub -> opt_or lb 0 <= opt_or ub I64_MAX ->
+  r_length_determinant m lb ub s = Ok (l, s') -> l <= 131072.
+Proof.
+  intros Hk Hwf. destruct (not_known_cases lb ub Hk) as [(u & -> & Hu)|[-> ->]].
+  - rewrite r_len_constrained by exact Hu. cbn [opt_or] in Hwf. set (lo := opt_or lb 0) in *.
+    assert (E : r_nnbi m lb (Some u) s =
+      (let range := u - lo in
+       let offset_bits := lz64 range in
+       let! (bs, s) := r_bits_into s 64 offset_bits (64 - offset_bits) in
+       let! v := uadd m lo (val_of_bits bs) in
+       Ok (v, s))) by (unfold lo; destruct lb; reflexivity).
+    rewrite E. cbv zeta. clear E.
+    destruct (r_bits_into s 64 _ _) as [[bs s1]| |] eqn:E1; cbn [bind]; try discriminate.
+    apply r_bits_into_len in E1. pose proof (vob_lt bs) as Hv.
+    assert (N.size (u - lo) <= 16) by (apply size_le_of_lt; change (2 ^ 16) with 65536; lia).
+    assert (2 ^ bl bs <= 2 ^ 16) by (apply N.pow_le_mono_r; unfold lz64 in E1; lia).
+    change (2 ^ 16) with 65536 in *.
+    rewrite uadd_ok by (unfold two64; lia). cbn [bind]. intros H'. injection H' as <- _. lia.
+  - rewrite r_len_unc_eq. intros H. apply r_len_unc_bound in H. lia.
+Qed.
+
+Lemma r_octetstring_np m lb ub extensible s :
+  ~ Known_C10_length_semi_or_large_bound lb ub -> opt_or lb 0 <= opt_or ub I64_MAX ->
+  np (r_octetstring m lb ub extensible s).
+Proof.
+  intros Hk Hwf. rewrite r_octetstring_eq. cbv zeta.
+  assert (Hl64 : opt_or lb 0 < two64).
+  { destruct (not_known_cases lb ub Hk) as [(u & -> & Hu)|[-> ->]]; cbn [opt_or] in *; unfold two64; lia. }
+  assert (Rest : forall s1,
+    np (if opt_or ub I64_MAX =? 0 then Ok ([], s1)
+        else if is_some lb && opt_n_eqb lb ub && (opt_or ub I64_MAX <? LENGTH_64K)
+             then octet_rbody m (opt_or ub I64_MAX) false s1
+             else let! (l, s2) := r_length_determinant m lb ub s1 in
+                  octet_rbody m l (negb (is_some lb) && negb (is_some ub)) s2)).
+  { intros s1. destruct (_ =? 0); [reflexivity|].
+    destruct (is_some lb && opt_n_eqb lb ub && (opt_or ub I64_MAX <? LENGTH_64K)) eqn:Ef.
+    - apply andb_true_iff in Ef. destruct Ef as [_ Ef]. apply N.ltb_lt in Ef.
+      apply octet_rbody_np. unfold LENGTH_64K, ALLOC_LIMIT in *. lia.
+    - apply np_bind; [apply r_length_np; assumption|intros [l s2] E].
+      apply r_length_bound in E; [|assumption|assumption].
+      apply octet_rbody_np. unfold ALLOC_LIMIT. lia. }
+  destruct extensible; [|apply Rest].
+  apply np_bind'; [apply r_bit_np|intros [ext s1]]. destruct ext; [|apply Rest].
+  rewrite r_len_unc_eq. apply np_bind; [apply r_len_unc_np|intros [l s2] E].
+  apply r_len_unc_bound in E. apply octet_rbody_np. unfold ALLOC_LIMIT. lia.
+Qed.
+
+(* F10-3: in the F10-1 class the decoded count is a 63-bit number and the allocation panics *)
+Lemma refuted_octetstring_alloc :
+  exists m lb bytes, r_octetstring m (Some lb) None false (src_of_bytes bytes (8 * blen bytes)) = Panic P_CAPACITY.
+Proof. exists release_mode, 1, [255; 255; 255; 255; 255; 255; 255; 255]. vm_compute. reflexivity. Qed.
+
+Lemma bit_rbody_np m n s : n <= 8 * ALLOC_LIMIT -> np (bit_rbody m n false s).
+Proof.
+  intros Hn. unfold bit_rbody. cbv zeta. rewrite alloc_ok by (unfold ALLOC_LIMIT in *; lia). cbn [bind].
+  apply np_bind'; [apply r_bits_into_np|intros [bs s1]]. reflexivity.
+Qed.
+
+(* BIT STRING reader with an upper bound below 64K in the root and no extension marker: no
+   fragment loop is entered *)
+Lemma r_bitstring_np m lb u s : u < 65536 -> opt_or lb 0 <= u ->
+  np (r_bitstring m lb (Some u) false s).
+Proof.
+  intros Hu Hwf. rewrite r_bitstring_eq. cbv zeta. cbn [opt_or].
+  assert (Hk : ~ Known_C10_length_semi_or_large_bound lb (Some u)) by (cbn; lia).
+  destruct (_ && _); [apply bit_rbody_np; unfold ALLOC_LIMIT; lia|].
+  apply np_bind; [apply r_length_np; [unfold two64; lia|exact Hk]|intros [l s2] E].
+  apply r_length_bound in E; [|exact Hk|exact Hwf].
+  replace (negb (is_some lb) && negb (is_some (Some u))) with false by (destruct lb; reflexivity).
+  apply bit_rbody_np. unfold ALLOC_LIMIT. lia.
+Qed.
+
+(* F10-2 on the read side: a second fragment after a 16K-bit first fragment underflows *)
+Lemma refuted_bitstring_read_16k :
+  exists bytes, r_bitstring dev_mode None None false (src_of_bytes bytes (8 * blen bytes)) = Panic P_ARITH.
+Proof. exists ([193] ++ repeat 0 2048 ++ [1; 128]). vm_compute. reflexivity. Qed.
+
+
+(** ** corollaries *)
+(* out of the extension root of an extensible size constraint: any bounds, F10-1 included *)
+Lemma octetstring_write_ext m lb ub bytes :
+  blen bytes < two63 -> blen bytes < opt_or lb 0 \/ opt_or ub I64_MAX < blen bytes ->
+  let bs := true :: x_unconstrained_length_run 8 (blen bytes) (bits_of_bytes bytes) in
+  w_octetstring m lb ub true bytes = Ok bs /\ x_octetstring lb ub true bytes = Some bs.
+Proof.
+  intros Hn Ho bs.
+  assert (Hx : x_octetstring lb ub true bytes = Some bs).
+  { unfold x_octetstring. rewrite x_sized_run_eq. cbv zeta. fold (blen bytes).
+    destruct (N.leb_spec (opt_or lb 0) (blen bytes)) as [L|L]; [|reflexivity].
+    destruct ub as [u|]; cbn [opt_or andb] in *.
+    - destruct (N.leb_spec (blen bytes) u); [lia|reflexivity].
+    - unfold I64_MAX in Ho. lia. }
+  split; [|exact Hx].
+  rewrite octetstring_write, Hx; [reflexivity|exact Hn|]. intros [_ R]. lia.
+Qed.
+
+Lemma refuted_octetstring_sized_length :
+  exists m lb ub bytes bs, Known_C10_sized_length lb ub (blen bytes) /\
+    x_octetstring lb ub false bytes = Some bs /\ w_octetstring m lb ub false bytes <> Ok bs
+    /\ is_ok (w_octetstring m lb ub false bytes) = true.
+Proof.
+  exists dev_mode, (Some 1), None, [1; 2; 3], (bits_of_bytes [3; 1; 2; 3]).
+  split; [split; [discriminate|vm_compute; split; discriminate]|].
+  split; [reflexivity|]. split; [vm_compute; discriminate|reflexivity].
+Qed.
+
